@@ -1,6 +1,8 @@
 /-
-Properties C19 / C16 on the HEAP model of NumPy vector arrays (`Glue/Heap.lean`): aliasing of views, detachment of copies,
-type preservation, name index = column, the frame property, pickle / copy round trips.
+Properties C19 / C16 on the HEAP model of NumPy vector arrays (`Glue/Heap.lean`): aliasing of views (slices, transposes,
+sub-arrays, 0-d views, strided reshapes), detachment of copies (copy / deepcopy / pickle / advanced indices / reshapes that must
+copy), type preservation (flavor, dtype names in order, extras), name index = column, elements built BY NAME whatever the
+field order, the frame property, pickle / copy / reshape round trips, in-place arithmetic as a write through the reference.
 
 All statements are for every scalar type `α` (the model only moves values) and every state / history.
 -/
@@ -73,7 +75,7 @@ theorem rowAt_writeCol (h : Heap α) (b : Nat) (idx : List Nat) (p : Nat) (vals 
     · simp only [hbb, if_true, List.getElem?_mapIdx]
       cases hi : buffer[i]? with
       | none => simp; split <;> simp
-      | some rec => simp; split <;> simp [*]
+      | some rec => simp <;> (try split) <;> simp [*]
     · simp [hbb]
 
 theorem writeCol_length (h : Heap α) (b : Nat) (idx : List Nat) (p : Nat) (vals : List α) :
@@ -168,6 +170,63 @@ theorem sees_congr (h h' : Heap α) (r : Ref) (hb : h'[r.buf]? = h[r.buf]?) : se
 theorem getElem?_append_one {β : Type} (l : List β) (x : β) (b : Nat) (hb : b < l.length) : (l ++ [x])[b]? = l[b]? :=
   List.getElem?_append_left hb
 
+/-! ### allocation of a fresh buffer -/
+
+theorem layoutOr_perm (lay : List Nat) (n : Nat) : IsPerm (layoutOr lay n) n := by
+  unfold layoutOr
+  split
+  · assumption
+  · exact ⟨List.length_range, List.nodup_range, fun i hi => List.mem_range.mp hi⟩
+
+theorem assoc_getElem {β : Type} (idx : List Nat) (vals : List β) (hn : idx.Nodup) (hl : idx.length = vals.length)
+    (k : Nat) (hk : k < idx.length) : assoc idx vals idx[k] = some (vals[k]'(hl ▸ hk)) := by
+  induction idx generalizing vals k with
+  | nil => simp at hk
+  | cons i idx ih =>
+    cases vals with
+    | nil => simp at hl
+    | cons x xs =>
+      cases k with
+      | zero => simp [assoc]
+      | succ k =>
+        simp only [List.length_cons, Nat.add_lt_add_iff_right] at hk
+        simp only [List.nodup_cons] at hn
+        have hne : ¬ i = idx[k] := fun h => hn.1 (h ▸ List.getElem_mem hk)
+        simp only [List.getElem_cons_succ, assoc, hne, if_false]
+        exact ih xs hn.2 (by simpa using hl) k hk
+
+/-- the buffer `alloc` makes -/
+def freshBuf (lay : List Nat) (recs : List (Record α)) : Buffer α :=
+  (List.range recs.length).map fun m => (assoc (layoutOr lay recs.length) recs m).getD []
+
+theorem alloc_eq (s : State α) (w : String) (ty : VTy) (sh lay : List Nat) (recs : List (Record α)) :
+    alloc s w ty sh lay recs =
+      ⟨s.heap ++ [freshBuf lay recs], bind s.env w ⟨s.heap.length, layoutOr lay recs.length, ty, sh⟩⟩ := rfl
+
+/-- the fresh array shows exactly the records it was allocated for, in their order, whatever the memory layout -/
+theorem sees_fresh (h : Heap α) (recs : List (Record α)) (ty : VTy) (sh lay : List Nat) :
+    sees (h ++ [freshBuf lay recs]) ⟨h.length, layoutOr lay recs.length, ty, sh⟩ = recs := by
+  obtain ⟨h1, h2, h3⟩ := layoutOr_perm lay recs.length
+  simp only [sees]
+  apply List.ext_getElem
+  · simp [h1]
+  · intro k hk1 hk2
+    simp only [List.length_map] at hk1
+    have hlt : (layoutOr lay recs.length)[k] < recs.length := h3 _ (List.getElem_mem hk1)
+    simp only [List.getElem_map, rowAt, List.getElem?_append_right (Nat.le_refl _), Nat.sub_self, List.getElem?_cons_zero,
+      Option.getD_some, freshBuf, List.getElem?_map, List.getElem?_range hlt, Option.map_some]
+    rw [assoc_getElem _ recs h2 h1 k hk1]
+    rfl
+
+theorem freshBuf_row (lay : List Nat) (recs : List (Record α)) (i : Nat) (hi : i ∈ layoutOr lay recs.length) :
+    ((freshBuf lay recs)[i]?).getD [] ∈ recs := by
+  obtain ⟨h1, h2, h3⟩ := layoutOr_perm lay recs.length
+  obtain ⟨k, hk, rfl⟩ := List.getElem_of_mem hi
+  have hlt : (layoutOr lay recs.length)[k] < recs.length := h3 _ (List.getElem_mem hk)
+  simp only [freshBuf, List.getElem?_map, List.getElem?_range hlt, Option.map_some, Option.getD_some]
+  rw [assoc_getElem _ recs h2 h1 k hk]
+  exact List.getElem_mem _
+
 /-! ### the shape of the effect of every operation -/
 
 /-- the rows of its target's index map a writing operation addresses -/
@@ -176,47 +235,67 @@ def addressed (s : State α) : Op α → List Nat
     | some r => r.idx
     | none => []
   | .setSlice v lo hi _ => match find v s.env with
-    | some r => pick r.idx ((slicePos (some lo) (some hi) none r.idx.length).getD [])
+    | some r => sliceRows r (some lo) (some hi)
     | none => []
   | .setElems v lo hi _ _ _ => match find v s.env with
-    | some r => pick r.idx ((slicePos lo hi none r.idx.length).getD [])
+    | some r => sliceRows r lo hi
+    | none => []
+  | .imap v _ => match find v s.env with
+    | some r => r.idx
+    | none => []
+  | .izip v _ _ => match find v s.env with
+    | some r => r.idx
     | none => []
   | _ => []
 
 /-- what `eval` can answer for an operation: nothing; a view of an existing variable's buffer with that variable's type,
 bound to the operation's target; a fresh buffer bound to the target; column writes into the buffer of the variable written
-through, at the addressed rows; an unbinding of the target -/
+through, at the addressed rows; such writes followed by the rebinding of that variable to a fresh buffer (in-place
+arithmetic); an unbinding of the target -/
 inductive Shape (s : State α) (op : Op α) : Eff α → Prop
   | none : Shape s op .none
   | view (w v : String) (rv r : Ref) : op.target = some w → op.writeVar = none → find v s.env = some rv →
       r.buf = rv.buf → r.ty = rv.ty → (∃ ps, r.idx = pick rv.idx ps) → Shape s op (.bindView w r)
-  | fresh (w : String) (ty : VTy) (recs : List (Record α)) : op.target = some w → op.writeVar = none →
-      Shape s op (.bindFresh w ty recs)
-  | writes (v : String) (r : Ref) (ws : List (Nat × List α)) : op.writeVar = some v → op.target = none →
+  | fresh (w : String) (ty : VTy) (sh lay : List Nat) (recs : List (Record α)) : op.target = some w → op.writeVar = none →
+      Shape s op (.bindFresh w ty sh lay recs)
+  | writes (v : String) (r : Ref) (ws : List (Nat × List α)) : op.writeVar = some v →
       find v s.env = some r → Shape s op (.writes r.buf (addressed s op) ws)
+  | writesFresh (v : String) (r : Ref) (ws : List (Nat × List α)) (ty : VTy) (sh : List Nat) (recs : List (Record α)) :
+      op.writeVar = some v → op.target = some v → find v s.env = some r →
+      Shape s op (.writesFresh r.buf (addressed s op) ws v ty sh recs)
   | del (v : String) : op.target = some v → op.writeVar = none → Shape s op (.del v)
 
-private theorem assignRows_shape (s : State α) (rt : Ref) (tlo thi : Option Int) (rs : Ref) (slo shi : Option Int) :
+theorem assignRows_shape (s : State α) (rt : Ref) (tlo thi : Option Int) (rs : Ref) (slo shi : Option Int) :
     (assignRows s rt tlo thi rs slo shi).1 = .none ∨
-      ∃ ws, (assignRows s rt tlo thi rs slo shi).1 =
-        .writes rt.buf (pick rt.idx ((slicePos tlo thi none rt.idx.length).getD [])) ws := by
+      ∃ ws, (assignRows s rt tlo thi rs slo shi).1 = .writes rt.buf (sliceRows rt tlo thi) ws := by
   unfold assignRows
   split
-  · rename_i tp sp h1 h2
-    dsimp only
+  · dsimp only
     split
-    · right
-      simp only [h1, Option.getD_some]
-      exact ⟨_, rfl⟩
+    · right; exact ⟨_, rfl⟩
     · left; rfl
   · left; rfl
 
+/-- the column writes of in-place arithmetic: for the dtype names before the first extra field, in order -/
+def inplaceWs (r : Ref) (cols : Nat → List α) : List (Nat × List α) :=
+  (List.range (coordPrefix r.ty)).map fun p => (p, cols p)
+
+theorem inplace_shape (v : String) (r : Ref) (cols : Nat → List α) (res : List (Record α)) :
+    (∃ sh, (inplace v r cols res) =
+        (.writesFresh r.buf r.idx (inplaceWs r cols) v ⟨r.ty.mom, r.ty.coords⟩ sh res, .ok)) ∨
+      (inplace v r cols res) = (.writes r.buf r.idx (inplaceWs r cols), .err .ValueError) := by
+  unfold inplace inplaceWs
+  dsimp only
+  split
+  · left; exact ⟨_, rfl⟩
+  · right; rfl
+
 theorem eval_shape (s : State α) (op : Op α) : Shape s op (eval s op).1 := by
   cases op with
-  | new v ty recs =>
+  | new v ty sh recs =>
     simp only [eval]
     split
-    · exact .fresh v ty recs rfl rfl
+    · exact .fresh v ty _ _ recs rfl rfl
     · exact .none
   | slice v w lo hi stp =>
     simp only [eval, withVar]
@@ -225,8 +304,9 @@ theorem eval_shape (s : State α) (op : Op α) : Shape s op (eval s op).1 := by
     · rename_i r hr
       split
       · exact .none
-      · rename_i ps hps
-        exact .view w v r _ rfl rfl hr rfl rfl ⟨ps, rfl⟩
+      · split
+        · exact .none
+        · exact .view w v r _ rfl rfl hr rfl rfl ⟨_, rfl⟩
   | view v w =>
     simp only [eval, withVar]
     split
@@ -238,35 +318,67 @@ theorem eval_shape (s : State α) (op : Op α) : Shape s op (eval s op).1 := by
     split
     · exact .none
     · split
-      · exact .fresh w _ _ rfl rfl
       · exact .none
+      · split
+        · exact .fresh w _ _ _ _ rfl rfl
+        · exact .none
   | fancy v w idxs =>
     simp only [eval, withVar]
     split
     · exact .none
     · split
       · exact .none
-      · exact .fresh w _ _ rfl rfl
+      · split
+        · exact .none
+        · exact .fresh w _ _ _ _ rfl rfl
   | copy v w =>
     simp only [eval, withVar]
     split
     · exact .none
-    · exact .fresh w _ _ rfl rfl
+    · exact .fresh w _ _ _ _ rfl rfl
   | deepcopy v w =>
     simp only [eval, withVar]
     split
     · exact .none
-    · exact .fresh w _ _ rfl rfl
+    · exact .fresh w _ _ _ _ rfl rfl
   | pickle v w =>
     simp only [eval, withVar]
     split
     · exact .none
-    · exact .fresh w _ _ rfl rfl
+    · exact .fresh w _ _ _ _ rfl rfl
+  | reshape v w dims =>
+    simp only [eval, withVar]
+    split
+    · exact .none
+    · rename_i r hr
+      split
+      · exact .none
+      · split
+        · exact .view w v r _ rfl rfl hr rfl rfl ⟨_, (pick_range r.idx).symm⟩
+        · exact .fresh w _ _ _ _ rfl rfl
+  | transpose v w =>
+    simp only [eval, withVar]
+    split
+    · exact .none
+    · rename_i r hr
+      exact .view w v r _ rfl rfl hr rfl rfl ⟨_, rfl⟩
+  | sub v w is ell =>
+    simp only [eval, withVar]
+    split
+    · exact .none
+    · rename_i r hr
+      split
+      · exact .none
+      · split
+        · exact .none
+        · exact .view w v r _ rfl rfl hr rfl rfl ⟨_, rfl⟩
   | intIndex v i =>
     simp only [eval, withVar]
     split
     · exact .none
-    · split <;> exact .none
+    · split
+      · exact .none
+      · split <;> exact .none
   | getName v name =>
     simp only [eval, withVar]
     split
@@ -282,7 +394,7 @@ theorem eval_shape (s : State α) (op : Op α) : Shape s op (eval s op).1 := by
       · split
         · exact .none
         · rename_i _ p _ _ vs _
-          have := Shape.writes (s := s) (op := .setName v name vals) v r [(p, vs)] rfl rfl hr
+          have := Shape.writes (s := s) (op := .setName v name vals) v r [(p, vs)] rfl hr
           simpa [addressed, hr] using this
   | setSlice v lo hi srcLo =>
     simp only [eval, withVar]
@@ -292,7 +404,7 @@ theorem eval_shape (s : State α) (op : Op α) : Shape s op (eval s op).1 := by
       rcases assignRows_shape s r (some lo) (some hi) r (some srcLo) (some (srcLo + (hi - lo))) with h | ⟨ws, h⟩
       · rw [h]; exact .none
       · rw [h]
-        have := Shape.writes (s := s) (op := .setSlice v lo hi srcLo) v r ws rfl rfl hr
+        have := Shape.writes (s := s) (op := .setSlice v lo hi srcLo) v r ws rfl hr
         simpa [addressed, hr] using this
   | setElems v lo hi w slo shi =>
     simp only [eval, withVar]
@@ -305,8 +417,42 @@ theorem eval_shape (s : State α) (op : Op α) : Shape s op (eval s op).1 := by
         rcases assignRows_shape s r lo hi rs slo shi with h | ⟨ws, h⟩
         · rw [h]; exact .none
         · rw [h]
-          have := Shape.writes (s := s) (op := .setElems v lo hi w slo shi) v r ws rfl rfl hr
+          have := Shape.writes (s := s) (op := .setElems v lo hi w slo shi) v r ws rfl hr
           simpa [addressed, hr] using this
+  | imap v f =>
+    simp only [eval, withVar]
+    split
+    · exact .none
+    · rename_i r hr
+      have haddr : addressed s (.imap v f) = r.idx := by simp [addressed, hr]
+      split
+      · rcases inplace_shape v r (fun p => ((sees s.heap r).filterMap (·[p]?)).map f)
+          ((sees s.heap r).map fun rec => (coordsOf r.ty rec).map f) with ⟨sh, h⟩ | h
+        · rw [h, ← haddr]
+          exact .writesFresh v r _ _ _ _ rfl rfl hr
+        · rw [h, ← haddr]
+          exact .writes v r _ rfl hr
+      · exact .none
+  | izip v w g =>
+    simp only [eval, withVar]
+    split
+    · exact .none
+    · rename_i r hr
+      have haddr : addressed s (.izip v w g) = r.idx := by simp [addressed, hr]
+      split
+      · exact .none
+      · rename_i rw hrw
+        split
+        · rcases inplace_shape v r
+            (fun p => List.zipWith g ((sees s.heap r).filterMap (·[p]?))
+              ((sees s.heap rw).filterMap fun rec => (pos (r.ty.fields[p]?.getD "") rw.ty.fields).bind (rec[·]?)))
+            (List.zipWith (fun a b => List.zipWith g (coordsOf r.ty a) (coordsOf rw.ty b)) (sees s.heap r) (sees s.heap rw))
+            with ⟨sh, h⟩ | h
+          · rw [h, ← haddr]
+            exact .writesFresh v r _ _ _ _ rfl rfl hr
+          · rw [h, ← haddr]
+            exact .writes v r _ rfl hr
+        · exact .none
   | del v =>
     simp only [eval, withVar]
     split
@@ -327,10 +473,13 @@ theorem find_step (s : State α) (op : Op α) (x : String) (h : op.target ≠ so
   | view w v rv r ht _ _ _ _ _ =>
     have : ¬ w = x := fun hw => h (hw ▸ ht)
     simp [apply, find_bind, this]
-  | fresh w ty recs ht _ =>
+  | fresh w ty sh lay recs ht _ =>
     have : ¬ w = x := fun hw => h (hw ▸ ht)
-    simp [apply, find_bind, this]
-  | writes v r ws _ _ _ => rfl
+    simp [apply, alloc_eq, find_bind, this]
+  | writes v r ws _ _ => rfl
+  | writesFresh v r ws ty sh recs _ ht _ =>
+    have : ¬ v = x := fun hw => h (hw ▸ ht)
+    simp [apply, alloc_eq, find_bind, this]
   | del v ht _ =>
     have : ¬ x = v := fun hw => h (hw ▸ ht)
     simp [apply, find_unbind, this]
@@ -340,7 +489,7 @@ theorem heap_step_length (s : State α) (op : Op α) : s.heap.length ≤ (step s
   have hs := eval_shape s op
   simp only [step]
   generalize (eval s op).1 = eff at hs
-  cases hs <;> simp [apply, writeCols_length]
+  cases hs <;> simp [apply, alloc_eq, writeCols_length]
 
 /-- a buffer changes only under an operation that writes into it -/
 theorem heap_step_other (s : State α) (op : Op α) (b : Nat) (hb : b < s.heap.length) (hw : writeBuf s op ≠ some b) :
@@ -351,13 +500,21 @@ theorem heap_step_other (s : State α) (op : Op α) (b : Nat) (hb : b < s.heap.l
   cases hs with
   | none => rfl
   | view w v rv r _ _ _ _ _ _ => rfl
-  | fresh w ty recs _ _ => simp [apply, List.getElem?_append_left hb]
-  | writes v r ws hv _ hr =>
+  | fresh w ty sh lay recs _ _ => simp [apply, alloc_eq, List.getElem?_append_left hb]
+  | writes v r ws hv hr =>
     have : b ≠ r.buf := by
       intro h
       apply hw
       simp [writeBuf, hv, hr, h]
     simp [apply, writeCols_other _ _ _ _ _ this]
+  | writesFresh v r ws ty sh recs hv _ hr =>
+    have : b ≠ r.buf := by
+      intro h
+      apply hw
+      simp [writeBuf, hv, hr, h]
+    simp only [apply, alloc_eq]
+    rw [List.getElem?_append_left (by rw [writeCols_length]; exact hb)]
+    exact writeCols_other _ _ _ _ _ this
   | del v _ _ => rfl
 
 /-- every variable points into the heap -/
@@ -379,17 +536,24 @@ theorem wf_step (s : State α) (op : Op α) (hwf : WF s) : WF (step s op).1 := b
     split at hx
     · cases hx; rw [hb]; exact hwf v rv hv
     · exact hwf x r' hx
-  | fresh w ty recs _ _ =>
+  | fresh w ty sh lay recs _ _ =>
     intro x r' hx
-    simp only [apply, find_bind] at hx
-    simp only [apply, List.length_append, List.length_singleton]
+    simp only [apply, alloc_eq, find_bind] at hx
+    simp only [apply, alloc_eq, List.length_append, List.length_singleton]
     split at hx
     · cases hx; simp
     · exact Nat.lt_succ_of_lt (hwf x r' hx)
-  | writes v r ws _ _ _ =>
+  | writes v r ws _ _ =>
     intro x r' hx
     simp only [apply, writeCols_length]
     exact hwf x r' hx
+  | writesFresh v r ws ty sh recs _ _ _ =>
+    intro x r' hx
+    simp only [apply, alloc_eq, find_bind] at hx
+    simp only [apply, alloc_eq, List.length_append, List.length_singleton, writeCols_length]
+    split at hx
+    · cases hx; simp [writeCols_length]
+    · exact Nat.lt_succ_of_lt (hwf x r' hx)
   | del v _ _ =>
     intro x r' hx
     simp only [apply, find_unbind] at hx
@@ -406,7 +570,7 @@ theorem wf_run (s : State α) (ops : List (Op α)) (hwf : WF s) : WF (run s ops)
 
 /-! ### what a variable shows -/
 
-/-- the records variable `v` shows in state `s` -/
+/-- the records variable `v` shows in state `s` (C order of its shape) -/
 def seen (s : State α) (v : String) : List (Record α) :=
   match find v s.env with
   | some r => sees s.heap r
@@ -421,9 +585,13 @@ def Op.produces : Op α → Option (String × String)
   | .copy v w => some (v, w)
   | .deepcopy v w => some (v, w)
   | .pickle v w => some (v, w)
+  | .reshape v w _ => some (v, w)
+  | .transpose v w => some (v, w)
+  | .sub v w _ _ => some (v, w)
   | _ => none
 
-/-- the operations whose result is a COPY: `v.copy()`, `copy.deepcopy(v)`, a pickle round trip, `v[mask]`, `v[[i, j]]` -/
+/-- the operations whose result is ALWAYS a COPY: `v.copy()`, `copy.deepcopy(v)`, a pickle round trip, `v[mask]`, `v[[i, j]]`
+(`reshape` copies only when the rows are not strided under the new shape: `c19h_reshape_copy_detached`) -/
 def Op.copies : Op α → Option (String × String)
   | .mask v w _ => some (v, w)
   | .fancy v w _ => some (v, w)
@@ -432,7 +600,7 @@ def Op.copies : Op α → Option (String × String)
   | .pickle v w => some (v, w)
   | _ => none
 
-/-! ### C19: views and slices ALIAS their source -/
+/-! ### C19: views, slices, transposes, sub-arrays and (strided) reshapes ALIAS their source -/
 
 /-- `w` shows rows `idx` of what `v` shows, out of the same buffer, with the same vector type -/
 def Aliased (s : State α) (v w : String) (idx : List Nat) : Prop :=
@@ -470,13 +638,41 @@ theorem c19h_view_intro (s : State α) (v w : String) (rv : Ref) (hvw : v ≠ w)
   · rw [find_step _ _ _ (by simp [Op.target, hvw.symm])]; exact hv
   · simp [step, eval, withVar, hv, apply, find_bind]
 
-/-- `w = v[lo:hi:stp]` makes `w` an alias of the rows `range(len(v))[lo:hi:stp]` of `v` -/
-theorem c19h_slice_intro (s : State α) (v w : String) (lo hi stp : Option Int) (rv : Ref) (ps : List Nat) (hvw : v ≠ w)
-    (hv : find v s.env = some rv) (hps : slicePos lo hi stp rv.idx.length = some ps) :
-    Aliased (step s (.slice v w lo hi stp)).1 v w ps := by
-  refine ⟨rv, ⟨rv.buf, pick rv.idx ps, rv.ty⟩, ?_, ?_, rfl, rfl, rfl⟩
+/-- `w = v[lo:hi:stp]` makes `w` an alias of the selected blocks of `v` (first axis; for a 1-d `v` the rows
+`range(len(v))[lo:hi:stp]`) -/
+theorem c19h_slice_intro (s : State α) (v w : String) (lo hi stp : Option Int) (rv : Ref) (sh ps : List Nat) (hvw : v ≠ w)
+    (hv : find v s.env = some rv) (hps : sliceAxis0 rv.shape lo hi stp = some (sh, ps)) :
+    Aliased (step s (.slice v w lo hi stp)).1 v w (distinct ps) := by
+  have hne : ¬ rv.shape = [] := by intro h; rw [h] at hps; simp [sliceAxis0] at hps
+  refine ⟨rv, ⟨rv.buf, pick rv.idx (distinct ps), rv.ty, sh⟩, ?_, ?_, rfl, rfl, rfl⟩
   · rw [find_step _ _ _ (by simp [Op.target, hvw.symm])]; exact hv
-  · simp [step, eval, withVar, hv, hps, apply, find_bind]
+  · simp [step, eval, withVar, hv, hps, hne, apply, find_bind]
+
+/-- `w = v.T` makes `w` an alias of `v` with the transposed order of rows -/
+theorem c19h_transpose_intro (s : State α) (v w : String) (rv : Ref) (hvw : v ≠ w) (hv : find v s.env = some rv) :
+    Aliased (step s (.transpose v w)).1 v w (distinct (transposePs rv.shape)) := by
+  refine ⟨rv, ⟨rv.buf, pick rv.idx (distinct (transposePs rv.shape)), rv.ty, rv.shape.reverse⟩, ?_, ?_, rfl, rfl, rfl⟩
+  · rw [find_step _ _ _ (by simp [Op.target, hvw.symm])]; exact hv
+  · simp [step, eval, withVar, hv, apply, find_bind]
+
+/-- `w = v[i, j]` / `w = v[i, j, ...]` makes `w` an alias of the addressed block of `v` (one row — a 0-d ARRAY — for a full
+tuple with Ellipsis) -/
+theorem c19h_sub_intro (s : State α) (v w : String) (is : List Int) (ell : Bool) (rv : Ref) (o : Nat) (sh : List Nat)
+    (hvw : v ≠ w) (hv : find v s.env = some rv) (ho : tupleOffset rv.shape is = some (o, sh))
+    (hell : ¬ (is.length = rv.shape.length ∧ ell = false)) :
+    Aliased (step s (.sub v w is ell)).1 v w (distinct ((List.range (prod sh)).map (· + o))) := by
+  refine ⟨rv, ⟨rv.buf, pick rv.idx (distinct ((List.range (prod sh)).map (· + o))), rv.ty, sh⟩, ?_, ?_, rfl, rfl, rfl⟩
+  · rw [find_step _ _ _ (by simp [Op.target, hvw.symm])]; exact hv
+  · simp only [step, eval, withVar, hv, ho, hell, if_false, apply, find_bind, if_true]
+
+/-- `w = v.reshape(dims)` makes `w` an alias of all of `v`, in the same order, when the rows `v` shows are strided under
+the new shape -/
+theorem c19h_reshape_intro (s : State α) (v w : String) (dims : List Nat) (rv : Ref) (hvw : v ≠ w)
+    (hv : find v s.env = some rv) (hd : prod dims = rv.idx.length) (hst : strided dims rv.idx = true) :
+    Aliased (step s (.reshape v w dims)).1 v w (List.range rv.idx.length) := by
+  refine ⟨rv, ⟨rv.buf, rv.idx, rv.ty, dims⟩, ?_, ?_, rfl, rfl, (pick_range _).symm⟩
+  · rw [find_step _ _ _ (by simp [Op.target, hvw.symm])]; exact hv
+  · simp [step, eval, withVar, hv, hd, hst, apply, find_bind]
 
 /-- the alias relation survives every operation that does not rebind (or delete) one of the two variables -/
 theorem c19h_alias_step {s : State α} {v w : String} {idx : List Nat} (h : Aliased s v w idx) (op : Op α)
@@ -494,25 +690,36 @@ theorem c19h_alias_run {s : State α} {v w : String} {idx : List Nat} (h : Alias
     exact ih (c19h_alias_step h op (hops op (List.mem_cons_self ..)).1 (hops op (List.mem_cons_self ..)).2)
       (fun o ho => hops o (List.mem_cons_of_mem _ ho))
 
+/-- an alias, for ever: in every later state reached without rebinding `v` or `w`, `w` shows the reindexing of what `v`
+shows, record by record and column by column -/
+theorem c19h_alias_forever {s : State α} {v w : String} {idx : List Nat} (h : Aliased s v w idx) (ops : List (Op α))
+    (hops : ∀ op ∈ ops, op.target ≠ some v ∧ op.target ≠ some w) :
+    let s' := run s ops
+    seen s' w = pick (seen s' v) idx ∧
+      ∀ name c, (step s' (.getName v name)).2 = .vals c → (step s' (.getName w name)).2 = .vals (pick c idx) := by
+  have hal := c19h_alias_run h ops hops
+  exact ⟨c19h_alias_reads hal, fun name c hc => c19h_alias_getName hal name c hc⟩
+
 /-- **C19, aliasing.**  After `w = v.view(type(v))` or `w = v[lo:hi:stp]`, in EVERY later state reached by operations that
-do not rebind `v` or `w` — name assignments and slice assignments through `v`, through `w`, through any other alias —
-the records `w` shows are the reindexing of the records `v` shows, and so is every named column. -/
+do not rebind `v` or `w` — name assignments and slice assignments through `v`, through `w`, through any other alias,
+in-place arithmetic through any OTHER alias — the records `w` shows are the reindexing of the records `v` shows, and so is
+every named column. -/
 theorem c19h_view_alias (s : State α) (v w : String) (rv : Ref) (hvw : v ≠ w) (hv : find v s.env = some rv)
     (ops : List (Op α)) (hops : ∀ op ∈ ops, op.target ≠ some v ∧ op.target ≠ some w) :
     (let s' := run (step s (.view v w)).1 ops
      seen s' w = seen s' v ∧
        ∀ name c, (step s' (.getName v name)).2 = .vals c → (step s' (.getName w name)).2 = .vals c) ∧
-    (∀ lo hi stp ps, slicePos lo hi stp rv.idx.length = some ps →
+    (∀ lo hi stp sh ps, sliceAxis0 rv.shape lo hi stp = some (sh, ps) →
       let s' := run (step s (.slice v w lo hi stp)).1 ops
-      seen s' w = pick (seen s' v) ps ∧
-        ∀ name c, (step s' (.getName v name)).2 = .vals c → (step s' (.getName w name)).2 = .vals (pick c ps)) := by
+      seen s' w = pick (seen s' v) (distinct ps) ∧
+        ∀ name c, (step s' (.getName v name)).2 = .vals c →
+          (step s' (.getName w name)).2 = .vals (pick c (distinct ps))) := by
   constructor
   · have h := c19h_alias_run (c19h_view_intro s v w rv hvw hv) ops hops
     have hlen : ∀ s' : State α, find v s'.env = some rv → (seen s' v).length = rv.idx.length := by
       intro s' h'; simp [seen, h', sees]
     obtain ⟨rv', rw', h1, h2, h3, h4, h5⟩ := h
     have hrv : rv' = rv := by
-      have := c19h_alias_run (c19h_view_intro s v w rv hvw hv) ops hops
       have h0 : find v (step s (.view v w)).1.env = some rv := by
         rw [find_step _ _ _ (by simp [Op.target, hvw.symm])]; exact hv
       have hrun : ∀ (ops : List (Op α)) (s0 : State α), (∀ op ∈ ops, op.target ≠ some v) → find v s0.env = some rv →
@@ -536,12 +743,28 @@ theorem c19h_view_alias (s : State α) (v w : String) (rv : Ref) (hvw : v ≠ w)
     · intro name c hc
       rw [c19h_alias_getName hal name c hc]
       rw [← getName_vals_length h1 name c hc, pick_range]
-  · intro lo hi stp ps hps
-    have hal := c19h_alias_run (c19h_slice_intro s v w lo hi stp rv ps hvw hv hps) ops hops
-    exact ⟨c19h_alias_reads hal, fun name c hc => c19h_alias_getName hal name c hc⟩
+  · intro lo hi stp sh ps hps
+    exact c19h_alias_forever (c19h_slice_intro s v w lo hi stp rv sh ps hvw hv hps) ops hops
+
+/-- **C19, aliasing, n-dimensional.**  The same for `w = v.T`, for `w = v[i, j]` / `w = v[i, j, ...]` (sub-array views and
+0-d views) and for `w = v.reshape(dims)` whenever NumPy can reshape without copying: `w` keeps showing the transposed rows /
+the addressed block / all rows of `v`, through every later write. -/
+theorem c19h_view_alias_nd (s : State α) (v w : String) (rv : Ref) (hvw : v ≠ w) (hv : find v s.env = some rv)
+    (ops : List (Op α)) (hops : ∀ op ∈ ops, op.target ≠ some v ∧ op.target ≠ some w) :
+    (let s' := run (step s (.transpose v w)).1 ops
+     seen s' w = pick (seen s' v) (distinct (transposePs rv.shape))) ∧
+    (∀ is ell o sh, tupleOffset rv.shape is = some (o, sh) → ¬ (is.length = rv.shape.length ∧ ell = false) →
+      let s' := run (step s (.sub v w is ell)).1 ops
+      seen s' w = pick (seen s' v) (distinct ((List.range (prod sh)).map (· + o)))) ∧
+    (∀ dims, prod dims = rv.idx.length → strided dims rv.idx = true →
+      let s' := run (step s (.reshape v w dims)).1 ops
+      seen s' w = pick (seen s' v) (List.range rv.idx.length)) :=
+  ⟨(c19h_alias_forever (c19h_transpose_intro s v w rv hvw hv) ops hops).1,
+   fun is ell o sh ho hell => (c19h_alias_forever (c19h_sub_intro s v w is ell rv o sh hvw hv ho hell) ops hops).1,
+   fun dims hd hst => (c19h_alias_forever (c19h_reshape_intro s v w dims rv hvw hv hd hst) ops hops).1⟩
 
 /-- in particular: a write (name assignment, slice assignment) through EITHER variable — or through any third alias — is
-seen through the other at the corresponding positions, because writing operations rebind nothing -/
+seen through the other at the corresponding positions, because such writing operations rebind nothing -/
 theorem c19h_view_alias_write {s : State α} {v w : String} {idx : List Nat} (h : Aliased s v w idx) (op : Op α)
     (hop : op.target = none) :
     Aliased (step s op).1 v w idx ∧ seen (step s op).1 w = pick (seen (step s op).1 v) idx := by
@@ -580,7 +803,7 @@ theorem c19h_quiet_seen (x : String) (r : Ref) (s : State α) (ops : List (Op α
   exact sees_congr _ _ _ (c19h_quiet_buffer _ _ _ hb hq)
 
 theorem copies_eval (s : State α) (op : Op α) (v w : String) (hop : op.copies = some (v, w))
-    (hok : (step s op).2 = .ok) : ∃ ty recs, (eval s op).1 = .bindFresh w ty recs := by
+    (hok : (step s op).2 = .ok) : ∃ ty sh lay recs, (eval s op).1 = .bindFresh w ty sh lay recs := by
   simp only [step] at hok
   cases op <;> simp only [Op.copies, Option.some.injEq, Prod.mk.injEq, reduceCtorEq] at hop
   case mask v' w' bits =>
@@ -589,61 +812,91 @@ theorem copies_eval (s : State α) (op : Op α) (v w : String) (hop : op.copies 
     cases hf : find v' s.env with
     | none => simp [hf] at hok
     | some rv =>
-      by_cases hm : bits.length = rv.idx.length ∨ bits = []
-      · simp [hm]
-      · simp [hf, hm] at hok
+      simp only [hf] at hok ⊢
+      by_cases h1 : rv.shape.length ≠ 1
+      · simp [h1] at hok
+      · by_cases hm : bits.length = rv.idx.length ∨ bits = []
+        · simp only [h1, hm, if_false, if_true]; exact ⟨_, _, _, _, rfl⟩
+        · simp [h1, hm] at hok
   case fancy v' w' idxs =>
     obtain ⟨rfl, rfl⟩ := hop
     simp only [eval, withVar] at hok ⊢
     cases hf : find v' s.env with
     | none => simp [hf] at hok
     | some rv =>
-      cases hn : normIdxs idxs rv.idx.length with
-      | none => simp [hf, hn] at hok
-      | some ps => simp [hn]
+      simp only [hf] at hok ⊢
+      by_cases h1 : rv.shape.length ≠ 1
+      · simp [h1] at hok
+      · cases hn : normIdxs idxs rv.idx.length with
+        | none => simp [h1, hn] at hok
+        | some ps => simp only [h1, if_false]; exact ⟨_, _, _, _, rfl⟩
   case copy v' w' =>
     obtain ⟨rfl, rfl⟩ := hop
     simp only [eval, withVar] at hok ⊢
     cases hf : find v' s.env with
     | none => simp [hf] at hok
-    | some rv => simp
+    | some rv => exact ⟨_, _, _, _, rfl⟩
   case deepcopy v' w' =>
     obtain ⟨rfl, rfl⟩ := hop
     simp only [eval, withVar] at hok ⊢
     cases hf : find v' s.env with
     | none => simp [hf] at hok
-    | some rv => simp
+    | some rv => exact ⟨_, _, _, _, rfl⟩
   case pickle v' w' =>
     obtain ⟨rfl, rfl⟩ := hop
     simp only [eval, withVar] at hok ⊢
     cases hf : find v' s.env with
     | none => simp [hf] at hok
-    | some rv => simp
+    | some rv => exact ⟨_, _, _, _, rfl⟩
+
+/-- whenever an operation allocates (binds its target `w` to a fresh buffer), no other variable, old or new, points into the
+new buffer -/
+theorem fresh_detached (s : State α) (hwf : WF s) (op : Op α) (w : String) (ty : VTy) (sh lay : List Nat)
+    (recs : List (Record α)) (he : (eval s op).1 = .bindFresh w ty sh lay recs) :
+    ∃ rw, find w (step s op).1.env = some rw ∧ rw.buf = s.heap.length ∧ rw.buf < (step s op).1.heap.length ∧
+      ∀ x r, x ≠ w → find x (step s op).1.env = some r → r.buf ≠ rw.buf ∧ find x s.env = some r := by
+  refine ⟨⟨s.heap.length, layoutOr lay recs.length, ty, sh⟩, ?_, rfl, ?_, ?_⟩
+  · simp [step, he, apply, alloc_eq, find_bind]
+  · simp [step, he, apply, alloc_eq]
+  · intro x r hxw hx
+    have hx' : find x s.env = some r := by
+      have hne : ¬ w = x := fun h => hxw h.symm
+      simpa [step, he, apply, alloc_eq, find_bind, hne] using hx
+    exact ⟨Nat.ne_of_lt (hwf x r hx'), hx'⟩
 
 /-- the result of a copying operation lives in a FRESH buffer: no other variable, old or new, points into it -/
 theorem c19h_copy_fresh (s : State α) (hwf : WF s) (op : Op α) (v w : String) (hop : op.copies = some (v, w))
     (hok : (step s op).2 = .ok) :
     ∃ rw, find w (step s op).1.env = some rw ∧ rw.buf = s.heap.length ∧ rw.buf < (step s op).1.heap.length ∧
       ∀ x r, x ≠ w → find x (step s op).1.env = some r → r.buf ≠ rw.buf ∧ find x s.env = some r := by
-  have key : ∀ ty recs, (eval s op).1 = .bindFresh w ty recs →
-      ∃ rw, find w (step s op).1.env = some rw ∧ rw.buf = s.heap.length ∧ rw.buf < (step s op).1.heap.length ∧
-        ∀ x r, x ≠ w → find x (step s op).1.env = some r → r.buf ≠ rw.buf ∧ find x s.env = some r := by
-    intro ty recs he
-    refine ⟨⟨s.heap.length, List.range recs.length, ty⟩, ?_, rfl, ?_, ?_⟩
-    · simp [step, he, apply, find_bind]
-    · simp [step, he, apply]
-    · intro x r hxw hx
-      have hx' : find x s.env = some r := by
-        have hne : ¬ w = x := fun h => hxw h.symm
-        simpa [step, he, apply, find_bind, hne] using hx
-      exact ⟨Nat.ne_of_lt (hwf x r hx'), hx'⟩
-  obtain ⟨ty, recs, he⟩ := copies_eval s op v w hop hok
-  exact key ty recs he
+  obtain ⟨ty, sh, lay, recs, he⟩ := copies_eval s op v w hop hok
+  exact fresh_detached s hwf op w ty sh lay recs he
+
+/-- what being detached means: (1) whatever happens later — as long as `w` is not rebound and no operation writes through
+`w` or a later-made alias of `w` — `w` shows what it showed; (2) every other variable keeps showing the same records under
+every history that does not rebind it and does not write into ITS buffer -/
+theorem detached_of_fresh (s : State α) (hwf : WF s) (op : Op α) (w : String)
+    (h : ∃ rw, find w (step s op).1.env = some rw ∧ rw.buf = s.heap.length ∧ rw.buf < (step s op).1.heap.length ∧
+      ∀ x r, x ≠ w → find x (step s op).1.env = some r → r.buf ≠ rw.buf ∧ find x s.env = some r) (ops : List (Op α)) :
+    let s1 := (step s op).1
+    (∃ rw, find w s1.env = some rw ∧
+      ((∀ o ∈ ops, o.target ≠ some w) → Quiet rw.buf s1 ops → seen (run s1 ops) w = seen s1 w) ∧
+      ∀ u ru, u ≠ w → find u s1.env = some ru → ru.buf ≠ rw.buf) ∧
+    ∀ x r, x ≠ w → find x s1.env = some r → (∀ o ∈ ops, o.target ≠ some x) → Quiet r.buf s1 ops →
+      seen (run s1 ops) x = seen s1 x := by
+  obtain ⟨rw, h1, h2, h3, h4⟩ := h
+  refine ⟨⟨rw, h1, ?_, fun u ru hu hf => (h4 u ru hu hf).1⟩, ?_⟩
+  · intro ho hq
+    exact (c19h_quiet_seen w rw _ ops h1 h3 ho hq).2
+  · intro x r hxw hx ho hq
+    have hlt : r.buf < (step s op).1.heap.length :=
+      Nat.lt_of_lt_of_le (hwf x r (h4 x r hxw hx).2) (heap_step_length s op)
+    exact (c19h_quiet_seen x r _ ops hx hlt ho hq).2
 
 /-- **C19, detachment.**  After `w = v.copy()` / `copy.deepcopy(v)` / a pickle round trip / `v[mask]` / `v[[i, j]]`:
 (1) whatever happens later — as long as `w` is not rebound and no operation writes through `w` or a later-made alias of `w`
-(`Quiet`: in particular every write through `v` or through any alias of `v`, old or new, is allowed) — `w` shows what it
-showed right after the copy;
+(`Quiet`: in particular every write through `v` or through any alias of `v`, old or new, in-place arithmetic included, is
+allowed) — `w` shows what it showed right after the copy;
 (2) vice versa, every other variable `x` (in particular `v` and each of its aliases) keeps showing the same records under
 every history that does not rebind `x` and does not write into `x`'s buffer — in particular under all writes through `w`. -/
 theorem c19h_copy_detached (s : State α) (hwf : WF s) (op : Op α) (v w : String) (hop : op.copies = some (v, w))
@@ -653,36 +906,34 @@ theorem c19h_copy_detached (s : State α) (hwf : WF s) (op : Op α) (v w : Strin
       ((∀ o ∈ ops, o.target ≠ some w) → Quiet rw.buf s1 ops → seen (run s1 ops) w = seen s1 w) ∧
       ∀ u ru, u ≠ w → find u s1.env = some ru → ru.buf ≠ rw.buf) ∧
     ∀ x r, x ≠ w → find x s1.env = some r → (∀ o ∈ ops, o.target ≠ some x) → Quiet r.buf s1 ops →
-      seen (run s1 ops) x = seen s1 x := by
-  obtain ⟨rw, h1, h2, h3, h4⟩ := c19h_copy_fresh s hwf op v w hop hok
-  refine ⟨⟨rw, h1, ?_, fun u ru hu hf => (h4 u ru hu hf).1⟩, ?_⟩
-  · intro ho hq
-    exact (c19h_quiet_seen w rw _ ops h1 h3 ho hq).2
-  · intro x r hxw hx ho hq
-    have hlt : r.buf < (step s op).1.heap.length :=
-      Nat.lt_of_lt_of_le (hwf x r (h4 x r hxw hx).2) (heap_step_length s op)
-    exact (c19h_quiet_seen x r _ ops hx hlt ho hq).2
+      seen (run s1 ops) x = seen s1 x :=
+  detached_of_fresh s hwf op w (c19h_copy_fresh s hwf op v w hop hok) ops
 
-/-- one step, stated with the variables: a write through `u` — `v` itself or any alias of `v` (same buffer) — does not change
-what a variable over ANOTHER buffer shows -/
+/-- … and the same for a `reshape` that has to COPY (the rows `v` shows are not strided under the new shape) -/
+theorem c19h_reshape_copy_detached (s : State α) (hwf : WF s) (v w : String) (dims : List Nat) (rv : Ref)
+    (hv : find v s.env = some rv) (hd : prod dims = rv.idx.length) (hst : strided dims rv.idx = false) (ops : List (Op α)) :
+    let s1 := (step s (.reshape v w dims)).1
+    (∃ rw, find w s1.env = some rw ∧
+      ((∀ o ∈ ops, o.target ≠ some w) → Quiet rw.buf s1 ops → seen (run s1 ops) w = seen s1 w) ∧
+      ∀ u ru, u ≠ w → find u s1.env = some ru → ru.buf ≠ rw.buf) ∧
+    ∀ x r, x ≠ w → find x s1.env = some r → (∀ o ∈ ops, o.target ≠ some x) → Quiet r.buf s1 ops →
+      seen (run s1 ops) x = seen s1 x :=
+  detached_of_fresh s hwf _ w (fresh_detached s hwf _ w rv.ty dims (List.range rv.idx.length) (sees s.heap rv)
+    (by simp [eval, withVar, hv, hd, hst])) ops
+
+/-- one step, stated with the variables: a write through `u` — `v` itself or any alias of `v` (same buffer), a name or slice
+assignment or in-place arithmetic — does not change what a variable over ANOTHER buffer shows -/
 theorem c19h_detached_write (s : State α) (u w : String) (ru rw : Ref) (op : Op α) (hu : find u s.env = some ru)
     (hw : find w s.env = some rw) (hne : ru.buf ≠ rw.buf) (hlt : rw.buf < s.heap.length) (hop : op.writeVar = some u) :
     seen (step s op).1 w = seen s w := by
   have hq : Quiet rw.buf s [op] := ⟨by simp [writeBuf, hop, hu, hne], trivial⟩
+  have huw : u ≠ w := by
+    intro h; subst h; rw [hu] at hw; cases hw; exact hne rfl
   have hw' : op.target ≠ some w := by
-    cases op <;> simp [Op.writeVar] at hop <;> simp [Op.target]
+    cases op <;> simp [Op.writeVar] at hop <;> simp [Op.target] <;> (subst hop; exact huw)
   exact (c19h_quiet_seen w rw s [op] hw hlt (by intro o ho; simp at ho; subst ho; exact hw') hq).2
 
 /-! ### C19: the vector type is preserved -/
-
-theorem sees_fresh (h : Heap α) (recs : List (Record α)) (ty : VTy) :
-    sees (h ++ [recs]) ⟨h.length, List.range recs.length, ty⟩ = recs := by
-  simp only [sees]
-  apply List.ext_getElem
-  · simp
-  · intro i h1 h2
-    simp at h1
-    simp [rowAt, h1]
 
 /-- what the array-producing operations answer: with the source bound to `rv`, either an error and NO effect at all, or the
 target is bound to an array of `rv`'s vector type showing a reindexing of what the source shows -/
@@ -690,107 +941,173 @@ theorem produces_eval (s : State α) (op : Op α) (v w : String) (hop : op.produ
     (∃ e, eval s op = (.none, .err e)) ∨
       ∃ rv r, find v s.env = some rv ∧ (eval s op).2 = .ok ∧ r.ty = rv.ty ∧
         find w (step s op).1.env = some r ∧ ∃ ps, sees (step s op).1.heap r = pick (sees s.heap rv) ps := by
-  have fresh : ∀ (rv : Ref) (ps : List Nat), find v s.env = some rv →
-      eval s op = (.bindFresh w rv.ty (pick (sees s.heap rv) ps), .ok) →
+  have fresh : ∀ (rv : Ref) (ps sh lay : List Nat), find v s.env = some rv →
+      eval s op = (.bindFresh w rv.ty sh lay (pick (sees s.heap rv) ps), .ok) →
       ∃ rv r, find v s.env = some rv ∧ (eval s op).2 = .ok ∧ r.ty = rv.ty ∧
         find w (step s op).1.env = some r ∧ ∃ ps, sees (step s op).1.heap r = pick (sees s.heap rv) ps := by
-    intro rv ps hv he
-    refine ⟨rv, ⟨s.heap.length, List.range (pick (sees s.heap rv) ps).length, rv.ty⟩, hv, by rw [he], rfl,
-      by simp [step, he, apply, find_bind], ps, ?_⟩
-    simp only [step, he, apply]
+    intro rv ps sh lay hv he
+    refine ⟨rv, ⟨s.heap.length, layoutOr lay (pick (sees s.heap rv) ps).length, rv.ty, sh⟩, hv, by rw [he], rfl,
+      by simp [step, he, apply, alloc_eq, find_bind], ps, ?_⟩
+    simp only [step, he, apply, alloc_eq]
     exact sees_fresh ..
-  have fresh' : ∀ (rv : Ref), find v s.env = some rv →
-      eval s op = (.bindFresh w rv.ty (sees s.heap rv), .ok) →
+  have fresh' : ∀ (rv : Ref) (sh lay : List Nat), find v s.env = some rv →
+      eval s op = (.bindFresh w rv.ty sh lay (sees s.heap rv), .ok) →
       ∃ rv r, find v s.env = some rv ∧ (eval s op).2 = .ok ∧ r.ty = rv.ty ∧
         find w (step s op).1.env = some r ∧ ∃ ps, sees (step s op).1.heap r = pick (sees s.heap rv) ps := by
-    intro rv hv he
-    apply fresh rv (List.range (sees s.heap rv).length) hv
+    intro rv sh lay hv he
+    apply fresh rv (List.range (sees s.heap rv).length) sh lay hv
     rw [pick_range]; exact he
+  have view : ∀ (rv : Ref) (ps sh : List Nat), find v s.env = some rv →
+      eval s op = (.bindView w ⟨rv.buf, pick rv.idx ps, rv.ty, sh⟩, .ok) →
+      ∃ rv r, find v s.env = some rv ∧ (eval s op).2 = .ok ∧ r.ty = rv.ty ∧
+        find w (step s op).1.env = some r ∧ ∃ ps, sees (step s op).1.heap r = pick (sees s.heap rv) ps := by
+    intro rv ps sh hv he
+    refine ⟨rv, ⟨rv.buf, pick rv.idx ps, rv.ty, sh⟩, hv, by rw [he], rfl, by simp [step, he, apply, find_bind], ps, ?_⟩
+    simp [step, he, apply, sees, pick_map]
   cases op <;> simp only [Op.produces, Option.some.injEq, Prod.mk.injEq, reduceCtorEq] at hop
   case slice v' w' lo hi stp =>
     obtain ⟨rfl, rfl⟩ := hop
     cases hf : find v' s.env with
     | none => left; exact ⟨.NameError, by simp [eval, withVar, hf]⟩
     | some rv =>
-      cases hp : slicePos lo hi stp rv.idx.length with
-      | none => left; exact ⟨.ValueError, by simp [eval, withVar, hf, hp]⟩
-      | some ps =>
-        right
-        have he : eval s (.slice v' w' lo hi stp) = (.bindView w' ⟨rv.buf, pick rv.idx ps, rv.ty⟩, .ok) := by
-          simp [eval, withVar, hf, hp]
-        refine ⟨rv, ⟨rv.buf, pick rv.idx ps, rv.ty⟩, rfl, by rw [he], rfl, by simp [step, he, apply, find_bind], ps, ?_⟩
-        simp [step, he, apply, sees, pick_map]
+      by_cases h0 : rv.shape = []
+      · left; exact ⟨.IndexError, by simp [eval, withVar, hf, h0]⟩
+      · cases hp : sliceAxis0 rv.shape lo hi stp with
+        | none => left; exact ⟨.ValueError, by simp [eval, withVar, hf, hp, h0]⟩
+        | some q =>
+          obtain ⟨sh, ps⟩ := q
+          right
+          have h := view rv (distinct ps) sh hf (by simp [eval, withVar, hf, hp, h0])
+          rwa [hf] at h
   case view v' w' =>
     obtain ⟨rfl, rfl⟩ := hop
     cases hf : find v' s.env with
     | none => left; exact ⟨.NameError, by simp [eval, withVar, hf]⟩
     | some rv =>
       right
-      have he : eval s (.view v' w') = (.bindView w' rv, .ok) := by simp [eval, withVar, hf]
-      refine ⟨rv, rv, rfl, by rw [he], rfl, by simp [step, he, apply, find_bind], List.range rv.idx.length, ?_⟩
-      have : (sees s.heap rv).length = rv.idx.length := by simp [sees]
-      rw [← this, pick_range]
-      simp [step, he, apply]
+      have h := view rv (List.range rv.idx.length) rv.shape hf (by simp [eval, withVar, hf, pick_range])
+      rwa [hf] at h
   case mask v' w' bits =>
     obtain ⟨rfl, rfl⟩ := hop
     cases hf : find v' s.env with
     | none => left; exact ⟨.NameError, by simp [eval, withVar, hf]⟩
     | some rv =>
-      by_cases hm : bits.length = rv.idx.length ∨ bits = []
-      · right; have h := fresh rv (maskPos bits 0) hf (by simp [eval, withVar, hf, hm]); rwa [hf] at h
-      · left; exact ⟨.IndexError, by simp [eval, withVar, hf, hm]⟩
+      by_cases h1 : rv.shape.length ≠ 1
+      · left; exact ⟨.Unmodelled, by simp [eval, withVar, hf, h1]⟩
+      · by_cases hm : bits.length = rv.idx.length ∨ bits = []
+        · right
+          have h := fresh rv (maskPos bits 0) [(pick (sees s.heap rv) (maskPos bits 0)).length]
+            (List.range (pick (sees s.heap rv) (maskPos bits 0)).length) hf (by simp [eval, withVar, hf, h1, hm])
+          rwa [hf] at h
+        · left; exact ⟨.IndexError, by simp [eval, withVar, hf, hm, h1]⟩
   case fancy v' w' idxs =>
     obtain ⟨rfl, rfl⟩ := hop
     cases hf : find v' s.env with
     | none => left; exact ⟨.NameError, by simp [eval, withVar, hf]⟩
     | some rv =>
-      cases hn : normIdxs idxs rv.idx.length with
-      | none => left; exact ⟨.IndexError, by simp [eval, withVar, hf, hn]⟩
-      | some ps => right; have h := fresh rv ps hf (by simp [eval, withVar, hf, hn]); rwa [hf] at h
+      by_cases h1 : rv.shape.length ≠ 1
+      · left; exact ⟨.Unmodelled, by simp [eval, withVar, hf, h1]⟩
+      · cases hn : normIdxs idxs rv.idx.length with
+        | none => left; exact ⟨.IndexError, by simp [eval, withVar, hf, hn, h1]⟩
+        | some ps =>
+          right
+          have h := fresh rv ps [(pick (sees s.heap rv) ps).length] (List.range (pick (sees s.heap rv) ps).length) hf
+            (by simp [eval, withVar, hf, h1, hn])
+          rwa [hf] at h
   case copy v' w' =>
     obtain ⟨rfl, rfl⟩ := hop
     cases hf : find v' s.env with
     | none => left; exact ⟨.NameError, by simp [eval, withVar, hf]⟩
-    | some rv => right; have h := fresh' rv hf (by simp [eval, withVar, hf]); rwa [hf] at h
+    | some rv => right; have h := fresh' rv rv.shape (List.range rv.idx.length) hf (by simp [eval, withVar, hf]); rwa [hf] at h
   case deepcopy v' w' =>
     obtain ⟨rfl, rfl⟩ := hop
     cases hf : find v' s.env with
     | none => left; exact ⟨.NameError, by simp [eval, withVar, hf]⟩
-    | some rv => right; have h := fresh' rv hf (by simp [eval, withVar, hf]); rwa [hf] at h
+    | some rv => right; have h := fresh' rv rv.shape (kLayout rv.shape rv.idx) hf (by simp [eval, withVar, hf]); rwa [hf] at h
   case pickle v' w' =>
     obtain ⟨rfl, rfl⟩ := hop
     cases hf : find v' s.env with
     | none => left; exact ⟨.NameError, by simp [eval, withVar, hf]⟩
-    | some rv => right; have h := fresh' rv hf (by simp [eval, withVar, hf]); rwa [hf] at h
+    | some rv => right; have h := fresh' rv rv.shape (pickleLayout rv.shape rv.idx) hf (by simp [eval, withVar, hf]); rwa [hf] at h
+  case reshape v' w' dims =>
+    obtain ⟨rfl, rfl⟩ := hop
+    cases hf : find v' s.env with
+    | none => left; exact ⟨.NameError, by simp [eval, withVar, hf]⟩
+    | some rv =>
+      by_cases hd : prod dims ≠ rv.idx.length
+      · left; exact ⟨.ValueError, by simp [eval, withVar, hf, hd]⟩
+      · right
+        cases hst : strided dims rv.idx with
+        | true =>
+          have h := view rv (List.range rv.idx.length) dims hf (by simp [eval, withVar, hf, hd, hst, pick_range])
+          rwa [hf] at h
+        | false =>
+          have h := fresh' rv dims (List.range rv.idx.length) hf (by simp [eval, withVar, hf, hd, hst])
+          rwa [hf] at h
+  case transpose v' w' =>
+    obtain ⟨rfl, rfl⟩ := hop
+    cases hf : find v' s.env with
+    | none => left; exact ⟨.NameError, by simp [eval, withVar, hf]⟩
+    | some rv =>
+      right
+      have h := view rv (distinct (transposePs rv.shape)) rv.shape.reverse hf (by simp [eval, withVar, hf])
+      rwa [hf] at h
+  case sub v' w' is ell =>
+    obtain ⟨rfl, rfl⟩ := hop
+    cases hf : find v' s.env with
+    | none => left; exact ⟨.NameError, by simp [eval, withVar, hf]⟩
+    | some rv =>
+      cases ho : tupleOffset rv.shape is with
+      | none => left; exact ⟨.IndexError, by simp [eval, withVar, hf, ho]⟩
+      | some q =>
+        obtain ⟨o, sh⟩ := q
+        by_cases hell : is.length = rv.shape.length ∧ ell = false
+        · left; exact ⟨.Unmodelled, by simp only [eval, withVar, hf, ho, hell, and_self, if_true]⟩
+        · right
+          have h := view rv (distinct ((List.range (prod sh)).map (· + o))) sh hf
+            (by simp only [eval, withVar, hf, ho, hell, if_false])
+          rwa [hf] at h
 
 /-- **C19, type preservation.**  Every operation that produces an array from an array (`slice view copy deepcopy pickle mask
-fancy`) and succeeds binds its target to an array of the SAME flavor, the same dtype field names (= coordinate system) and
-the same dimension, hence of the same class. -/
+fancy reshape transpose sub`) and succeeds binds its target to an array of the SAME flavor, the same dtype field names IN
+THE SAME ORDER (extras included), hence the same coordinate system, dimension and class. -/
 theorem c19h_type_preserved (s : State α) (op : Op α) (v w : String) (hop : op.produces = some (v, w))
     (hok : (step s op).2 = .ok) :
     ∃ rv rw, find v s.env = some rv ∧ find w (step s op).1.env = some rw ∧ rw.ty = rv.ty ∧ rw.ty.mom = rv.ty.mom ∧
-      rw.ty.fields = rv.ty.fields ∧ rw.ty.dim = rv.ty.dim ∧ rw.ty.tag = rv.ty.tag := by
+      rw.ty.fields = rv.ty.fields ∧ rw.ty.coords = rv.ty.coords ∧ rw.ty.dim = rv.ty.dim ∧ rw.ty.tag = rv.ty.tag := by
   rcases produces_eval s op v w hop with ⟨e, he⟩ | ⟨rv, r, h1, _, h3, h4, _⟩
   · simp [step, he] at hok
-  · exact ⟨rv, r, h1, h4, h3, by rw [h3], by rw [h3], by rw [h3], by rw [h3]⟩
+  · exact ⟨rv, r, h1, h4, h3, by rw [h3], by rw [h3], by rw [h3], by rw [h3], by rw [h3]⟩
 
-/-- … and an integer index returns an element of the array's flavor and coordinate system, holding exactly the record at
-that position (Python's negative indices included); it changes nothing -/
-theorem c19h_type_preserved_intIndex (s : State α) (v : String) (i : Int) (ty : VTy) (rec : Record α)
-    (h : (step s (.intIndex v i)).2 = .elem ty rec) :
-    (step s (.intIndex v i)).1 = s ∧
-      ∃ rv k, find v s.env = some rv ∧ ty = rv.ty ∧ ty.objTag = rv.ty.objTag ∧ normIdx i rv.idx.length = some k ∧
-        rec = ((seen s v)[k]?).getD [] := by
+/-- … and a FULL integer tuple returns an element of the array's flavor and coordinate system, built from the record at that
+position (Python's negative indices included) BY NAME (`coordsOf`; `c19h_intIndex_by_name`); it changes nothing -/
+theorem c19h_type_preserved_intIndex (s : State α) (v : String) (is : List Int) (ty : VTy) (cs : Record α)
+    (h : (step s (.intIndex v is)).2 = .elem ty cs) :
+    (step s (.intIndex v is)).1 = s ∧
+      ∃ rv o sh, find v s.env = some rv ∧ ty = rv.ty ∧ ty.objTag = rv.ty.objTag ∧ tupleOffset rv.shape is = some (o, sh) ∧
+        is.length = rv.shape.length ∧ cs = coordsOf rv.ty (((seen s v)[o]?).getD []) := by
   simp only [step, eval, withVar] at h ⊢
   cases hf : find v s.env with
   | none => simp [hf] at h
   | some rv =>
-    cases hn : normIdx i rv.idx.length with
-    | none => simp [hf, hn] at h
-    | some k =>
-      simp only [hf, hn, Out.elem.injEq] at h
-      refine ⟨by simp [hn, apply], rv, k, rfl, h.1.symm, by rw [h.1], hn, ?_⟩
-      simp [seen, hf, h.2]
+    cases ho : tupleOffset rv.shape is with
+    | none => simp [hf, ho] at h
+    | some q =>
+      obtain ⟨o, sh⟩ := q
+      by_cases hfull : is.length = rv.shape.length
+      · simp only [hf, ho, hfull, if_true, Out.elem.injEq] at h
+        refine ⟨by simp [ho, hfull, apply], rv, o, sh, rfl, h.1.symm, by rw [h.1], ho, hfull, ?_⟩
+        simp [seen, hf, h.2]
+      · simp [hf, ho, hfull] at h
+
+/-- a PARTIAL integer tuple, and a tuple followed by an Ellipsis, is an ARRAY of the same class (never an element) -/
+theorem c19h_partial_index_is_array (s : State α) (v : String) (is : List Int) (rv : Ref) (o : Nat) (sh : List Nat)
+    (hv : find v s.env = some rv) (ho : tupleOffset rv.shape is = some (o, sh)) :
+    (is.length ≠ rv.shape.length → (step s (.intIndex v is)).2 = .arr rv.ty sh) ∧
+    ∀ w, (step s (.sub v w is true)).2 = .ok := by
+  constructor
+  · intro h; simp [step, eval, withVar, hv, ho, h]
+  · intro w; simp [step, eval, withVar, hv, ho]
 
 /-! ### C19: the name index is the column -/
 
@@ -840,6 +1157,7 @@ theorem c19h_getName_generic (s : State α) (v name : String) (rv : Ref) (hv : f
   simp only [generic, hg] at this
   exact this hn
 
+
 /-! ### C16: the frame property -/
 
 theorem mem_pick {β : Type} {l : List β} {ps : List Nat} {x : β} (h : x ∈ pick l ps) : x ∈ l := by
@@ -847,9 +1165,19 @@ theorem mem_pick {β : Type} {l : List β} {ps : List Nat} {x : β} (h : x ∈ p
   obtain ⟨i, _, hi⟩ := h
   exact List.mem_of_getElem? hi
 
-/-- **C16, non-writing operations** (`new slice view copy deepcopy pickle mask fancy intIndex getName del dump`): the heap
-is extended at most — every existing buffer keeps its contents — and every variable other than the operation's target
-keeps its `Ref`. -/
+theorem mem_sliceRows {r : Ref} {lo hi : Option Int} {i : Nat} (h : i ∈ sliceRows r lo hi) : i ∈ r.idx := by
+  unfold sliceRows at h
+  split at h
+  · exact mem_pick h
+  · simp at h
+
+theorem rowAt_append_old (h : Heap α) (recs : Buffer α) (b i : Nat) (hb : b < h.length) :
+    rowAt (h ++ [recs]) b i = rowAt h b i := by
+  simp [rowAt, List.getElem?_append_left hb]
+
+/-- **C16, non-writing operations** (`new slice view copy deepcopy pickle mask fancy reshape transpose sub intIndex getName
+del dump`): the heap is extended at most — every existing buffer keeps its contents — and every variable other than the
+operation's target keeps its `Ref`. -/
 theorem c19h_frame (s : State α) (op : Op α) (hop : op.writeVar = none) :
     (∃ t, (step s op).1.heap = s.heap ++ t) ∧ (∀ b, b < s.heap.length → (step s op).1.heap[b]? = s.heap[b]?) ∧
       ∀ x, op.target ≠ some x → find x (step s op).1.env = find x s.env := by
@@ -860,11 +1188,12 @@ theorem c19h_frame (s : State α) (op : Op α) (hop : op.writeVar = none) :
   cases hs with
   | none => exact ⟨[], by simp [apply]⟩
   | view w v rv r _ _ _ _ _ _ => exact ⟨[], by simp [apply]⟩
-  | fresh w ty recs _ _ => exact ⟨[recs], rfl⟩
-  | writes v r ws hv _ _ => rw [hop] at hv; cases hv
+  | fresh w ty sh lay recs _ _ => exact ⟨[freshBuf lay recs], rfl⟩
+  | writes v r ws hv _ => rw [hop] at hv; cases hv
+  | writesFresh v r ws ty sh recs hv _ _ => rw [hop] at hv; cases hv
   | del v _ _ => exact ⟨[], by simp [apply]⟩
 
-/-- the pure reads (`v[i]`, `v[name]`, `dump`) change nothing at all -/
+/-- the pure reads (`v[i, j]`, `v[name]`, `dump`) change nothing at all -/
 theorem c19h_frame_reads (s : State α) (op : Op α) (hw : op.writeVar = none) (ht : op.target = none) :
     (step s op).1 = s := by
   have hs := eval_shape s op
@@ -873,14 +1202,27 @@ theorem c19h_frame_reads (s : State α) (op : Op α) (hw : op.writeVar = none) (
   cases hs with
   | none => rfl
   | view w v rv r h _ _ _ _ _ => rw [ht] at h; cases h
-  | fresh w ty recs h _ => rw [ht] at h; cases h
-  | writes v r ws hv _ _ => rw [hw] at hv; cases hv
+  | fresh w ty sh lay recs h _ => rw [ht] at h; cases h
+  | writes v r ws hv _ => rw [hw] at hv; cases hv
+  | writesFresh v r ws ty sh recs hv _ _ => rw [hw] at hv; cases hv
   | del v h _ => rw [ht] at h; cases h
 
-/-- **C16, writing operations** (`v[name] = …`, `v[lo:hi] = …`): no variable is rebound, no buffer and no record changes its
-length, and the only rows that can differ afterwards are the ADDRESSED rows of the buffer of the variable written through
-(all rows `v` shows for a name assignment, the rows `v[lo:hi]` shows for a slice assignment) — which are rows `v` shows. -/
-theorem c19h_frame_write (s : State α) (op : Op α) (v : String) (hop : op.writeVar = some v) :
+theorem addressed_mem (s : State α) (op : Op α) (v : String) (hop : op.writeVar = some v) (r : Ref)
+    (hr : find v s.env = some r) : ∀ i, i ∈ addressed s op → i ∈ r.idx := by
+  intro i hi
+  cases op <;> simp only [Op.writeVar, Option.some.injEq, reduceCtorEq] at hop <;> subst hop <;>
+    simp only [addressed, hr] at hi
+  · exact hi
+  · exact mem_sliceRows hi
+  · exact mem_sliceRows hi
+  · exact hi
+  · exact hi
+
+/-- **C16, writing operations that rebind nothing** (`v[name] = …`, `v[lo:hi] = …`): no variable is rebound, no buffer and no
+record changes its length, and the only rows that can differ afterwards are the ADDRESSED rows of the buffer of the variable
+written through (all rows `v` shows for a name assignment, the rows `v[lo:hi]` shows for a slice assignment) — which are rows
+`v` shows.  (In-place arithmetic: `c19h_frame_inplace`.) -/
+theorem c19h_frame_write (s : State α) (op : Op α) (v : String) (hop : op.writeVar = some v) (ht : op.target = none) :
     (step s op).1.env = s.env ∧ (step s op).1.heap.length = s.heap.length ∧
     (∀ b : Nat, ((step s op).1.heap[b]?).map List.length = (s.heap[b]?).map List.length) ∧
     (∀ b i, (rowAt (step s op).1.heap b i).length = (rowAt s.heap b i).length) ∧
@@ -890,21 +1232,16 @@ theorem c19h_frame_write (s : State α) (op : Op α) (v : String) (hop : op.writ
       (∀ b i, b ≠ r.buf ∨ i ∉ addressed s op → rowAt (step s op).1.heap b i = rowAt s.heap b i) ∧
       ∀ i, i ∈ addressed s op → i ∈ r.idx := by
   have hs := eval_shape s op
-  have haddr : ∀ r, find v s.env = some r → ∀ i, i ∈ addressed s op → i ∈ r.idx := by
-    intro r hr i hi
-    cases op <;> simp only [Op.writeVar, Option.some.injEq, reduceCtorEq] at hop <;> subst hop <;>
-      simp only [addressed, hr] at hi
-    · exact hi
-    · exact mem_pick hi
-    · exact mem_pick hi
+  have haddr := addressed_mem s op v hop
   simp only [step]
   generalize (eval s op).1 = eff at hs
   cases hs with
   | none => exact ⟨rfl, rfl, fun _ => rfl, fun _ _ => rfl, fun _ => rfl, fun r hr => ⟨fun _ _ => rfl, fun _ _ _ => rfl, haddr r hr⟩⟩
   | view w v' rv r _ h _ _ _ _ => rw [hop] at h; cases h
-  | fresh w ty recs _ h => rw [hop] at h; cases h
+  | fresh w ty sh lay recs _ h => rw [hop] at h; cases h
   | del v' _ h => rw [hop] at h; cases h
-  | writes v' r' ws hv _ hr' =>
+  | writesFresh v' r' ws ty sh recs _ h _ => rw [ht] at h; cases h
+  | writes v' r' ws hv hr' =>
     rw [hop] at hv
     cases hv
     refine ⟨rfl, writeCols_length .., fun b => writeCols_buflen .., fun b i => rowAt_writeCols_length .., ?_, ?_⟩
@@ -913,6 +1250,49 @@ theorem c19h_frame_write (s : State α) (op : Op α) (v : String) (hop : op.writ
       rw [hr'] at hr
       cases hr
       exact ⟨fun b hb => writeCols_other _ _ _ _ _ hb, fun b i hbi => rowAt_writeCols_row _ _ _ _ _ _ hbi, haddr _ hr'⟩
+
+/-- **C16, every writing operation, in-place arithmetic included** (`v *= k`, `v += w`, `v -= w` write through `v` AND rebind
+`v` to a fresh array): only the operation's target is rebound; of the EXISTING buffers only rows `v` shows, in `v`'s buffer,
+can differ afterwards; no existing record changes its length. -/
+theorem c19h_frame_inplace (s : State α) (op : Op α) (v : String) (r : Ref) (hop : op.writeVar = some v)
+    (hr : find v s.env = some r) :
+    (∀ x, op.target ≠ some x → find x (step s op).1.env = find x s.env) ∧
+    (∀ b i, b < s.heap.length → (b ≠ r.buf ∨ i ∉ addressed s op) → rowAt (step s op).1.heap b i = rowAt s.heap b i) ∧
+    (∀ b i, b < s.heap.length → (rowAt (step s op).1.heap b i).length = (rowAt s.heap b i).length) ∧
+    ∀ i, i ∈ addressed s op → i ∈ r.idx := by
+  refine ⟨fun x hx => find_step s op x hx, ?_, ?_, addressed_mem s op v hop r hr⟩
+  · have hs := eval_shape s op
+    simp only [step]
+    generalize (eval s op).1 = eff at hs
+    cases hs with
+    | none => intro b i _ _; rfl
+    | view w v' rv r' _ h _ _ _ _ => rw [hop] at h; cases h
+    | fresh w ty sh lay recs _ h => rw [hop] at h; cases h
+    | del v' _ h => rw [hop] at h; cases h
+    | writes v' r' ws hv hr' =>
+      rw [hop] at hv; cases hv; rw [hr] at hr'; cases hr'
+      intro b i _ hbi
+      exact rowAt_writeCols_row _ _ _ _ _ _ hbi
+    | writesFresh v' r' ws ty sh recs hv _ hr' =>
+      rw [hop] at hv; cases hv; rw [hr] at hr'; cases hr'
+      intro b i hb hbi
+      simp only [apply, alloc_eq]
+      rw [rowAt_append_old _ _ _ _ (by rw [writeCols_length]; exact hb)]
+      exact rowAt_writeCols_row _ _ _ _ _ _ hbi
+  · have hs := eval_shape s op
+    simp only [step]
+    generalize (eval s op).1 = eff at hs
+    cases hs with
+    | none => intro b i _; rfl
+    | view w v' rv r' _ h _ _ _ _ => rw [hop] at h; cases h
+    | fresh w ty sh lay recs _ h => rw [hop] at h; cases h
+    | del v' _ h => rw [hop] at h; cases h
+    | writes v' r' ws hv hr' => intro b i _; exact rowAt_writeCols_length ..
+    | writesFresh v' r' ws ty sh recs hv _ hr' =>
+      intro b i hb
+      simp only [apply, alloc_eq]
+      rw [rowAt_append_old _ _ _ _ (by rw [writeCols_length]; exact hb)]
+      exact rowAt_writeCols_length ..
 
 /-- … and a name assignment touches ONE field: every other field of every record is unchanged -/
 theorem c19h_frame_setName_field (s : State α) (v name : String) (vals : List α) (rv : Ref) (hv : find v s.env = some rv)
@@ -934,18 +1314,23 @@ theorem c19h_frame_setName_field (s : State α) (v name : String) (vals : List 
       apply hq
       rw [hp, ← h]
 
-/-- **C16, failure atomicity.**  Every operation other than a slice assignment that answers with an exception leaves the
-state exactly as it was.  (A slice assignment `v[lo:hi] = w[…]` whose right-hand side has a field the target lacks raises
-AFTER the earlier fields were written — `c19h_setElems_partial` below; this is the behaviour of `_setitem`.) -/
+/-- **C16, failure atomicity.**  Every operation other than a slice assignment and in-place arithmetic that answers with an
+exception leaves the state exactly as it was.  (A slice assignment `v[lo:hi] = w[…]` whose right-hand side has a field the
+target lacks raises AFTER the earlier fields were written — `c19h_setElems_partial` below; `v *= k` on an array with an extra
+field raises after the coordinates standing before that field were scaled — `c19h_inplace_partial`; this is the behaviour of
+`_setitem` / `__array_ufunc__`.) -/
 theorem c19h_error_no_effect (s : State α) (op : Op α) (e : Err) (herr : (step s op).2 = .err e)
-    (hop : ∀ v lo hi srcLo, op ≠ .setSlice v lo hi srcLo) (hop' : ∀ v lo hi w slo shi, op ≠ .setElems v lo hi w slo shi) :
+    (hop : ∀ v lo hi srcLo, op ≠ .setSlice v lo hi srcLo) (hop' : ∀ v lo hi w slo shi, op ≠ .setElems v lo hi w slo shi)
+    (hop'' : ∀ v f, op ≠ .imap v f) (hop''' : ∀ v w g, op ≠ .izip v w g) :
     (step s op).1 = s := by
   simp only [step] at herr ⊢
   cases op with
   | setSlice v lo hi srcLo => exact absurd rfl (hop v lo hi srcLo)
   | setElems v lo hi w slo shi => exact absurd rfl (hop' v lo hi w slo shi)
+  | imap v f => exact absurd rfl (hop'' v f)
+  | izip v w g => exact absurd rfl (hop''' v w g)
   | dump => rfl
-  | new v ty recs =>
+  | new v ty sh recs =>
     simp only [eval] at herr ⊢
     split at herr
     · cases herr
@@ -954,27 +1339,61 @@ theorem c19h_error_no_effect (s : State α) (op : Op α) (e : Err) (herr : (step
     simp only [eval, withVar] at herr ⊢
     cases hf : find v s.env with
     | none => rfl
-    | some rv => cases hp : slicePos lo hi stp rv.idx.length <;> simp [hf, hp, apply] at herr ⊢
+    | some rv =>
+      by_cases h0 : rv.shape = []
+      · simp [h0, apply]
+      · cases hp : sliceAxis0 rv.shape lo hi stp <;> simp [hf, hp, h0, apply] at herr ⊢
   | mask v w bits =>
     simp only [eval, withVar] at herr ⊢
     cases hf : find v s.env with
     | none => rfl
-    | some rv => by_cases hm : bits.length = rv.idx.length ∨ bits = [] <;> simp [hf, hm, apply] at herr ⊢
+    | some rv =>
+      by_cases h1 : rv.shape.length ≠ 1
+      · simp [h1, apply]
+      · by_cases hm : bits.length = rv.idx.length ∨ bits = [] <;> simp [hf, hm, h1, apply] at herr ⊢
   | fancy v w idxs =>
     simp only [eval, withVar] at herr ⊢
     cases hf : find v s.env with
     | none => rfl
-    | some rv => cases hp : normIdxs idxs rv.idx.length <;> simp [hf, hp, apply] at herr ⊢
+    | some rv =>
+      by_cases h1 : rv.shape.length ≠ 1
+      · simp [h1, apply]
+      · cases hp : normIdxs idxs rv.idx.length <;> simp [hf, hp, h1, apply] at herr ⊢
   | view v w => simp only [eval, withVar] at herr ⊢; cases hf : find v s.env <;> simp [hf, apply] at herr ⊢
   | copy v w => simp only [eval, withVar] at herr ⊢; cases hf : find v s.env <;> simp [hf, apply] at herr ⊢
   | deepcopy v w => simp only [eval, withVar] at herr ⊢; cases hf : find v s.env <;> simp [hf, apply] at herr ⊢
   | pickle v w => simp only [eval, withVar] at herr ⊢; cases hf : find v s.env <;> simp [hf, apply] at herr ⊢
+  | transpose v w => simp only [eval, withVar] at herr ⊢; cases hf : find v s.env <;> simp [hf, apply] at herr ⊢
   | del v => simp only [eval, withVar] at herr ⊢; cases hf : find v s.env <;> simp [hf, apply] at herr ⊢
+  | reshape v w dims =>
+    simp only [eval, withVar] at herr ⊢
+    cases hf : find v s.env with
+    | none => rfl
+    | some rv =>
+      by_cases hd : prod dims ≠ rv.idx.length
+      · simp [hd, apply]
+      · cases hst : strided dims rv.idx <;> simp [hf, hd, hst] at herr ⊢
+  | sub v w is ell =>
+    simp only [eval, withVar] at herr ⊢
+    cases hf : find v s.env with
+    | none => rfl
+    | some rv =>
+      cases ho : tupleOffset rv.shape is with
+      | none => simp [ho, apply]
+      | some q =>
+        obtain ⟨o, sh⟩ := q
+        by_cases hell : is.length = rv.shape.length ∧ ell = false
+        · simp only [ho, hell, and_self, if_true, apply]
+        · simp only [hf, ho, hell, if_false] at herr
+          cases herr
   | intIndex v i =>
     simp only [eval, withVar] at herr ⊢
     cases hf : find v s.env with
     | none => rfl
-    | some rv => cases hp : normIdx i rv.idx.length <;> simp [hp, apply]
+    | some rv =>
+      cases hp : tupleOffset rv.shape i with
+      | none => simp [hp, apply]
+      | some q => obtain ⟨o, sh⟩ := q; by_cases hfull : i.length = rv.shape.length <;> simp [hp, hfull, apply]
   | getName v name =>
     simp only [eval, withVar] at herr ⊢
     cases hf : find v s.env with
@@ -992,40 +1411,65 @@ theorem c19h_error_no_effect (s : State α) (op : Op α) (e : Err) (herr : (step
 /-! ### C19: round trips -/
 
 /-- **C19, round trip.**  `w = v.copy()`, `w = copy.deepcopy(v)` and `w = pickle.loads(pickle.dumps(v))` always succeed on a
-live `v`; `w` then shows exactly the records `v` showed, has `v`'s vector type (class, field names), and nothing `v` or
-any other variable shows has changed. -/
+live `v`; `w` then shows exactly the records `v` showed, in the same order and with the same SHAPE (whatever the memory
+layout of the new buffer), has `v`'s vector type (class, field names in order, extras), and nothing `v` or any other
+variable shows has changed. -/
 theorem c19h_roundtrip (s : State α) (op : Op α) (v w : String) (rv : Ref) (hv : find v s.env = some rv)
     (hop : op = .copy v w ∨ op = .deepcopy v w ∨ op = .pickle v w) :
     (step s op).2 = .ok ∧
-      ∃ rw, find w (step s op).1.env = some rw ∧ rw.ty = rv.ty ∧ rw.buf = s.heap.length ∧
+      ∃ rw, find w (step s op).1.env = some rw ∧ rw.ty = rv.ty ∧ rw.shape = rv.shape ∧ rw.buf = s.heap.length ∧
         seen (step s op).1 w = seen s v ∧ ∀ b, b < s.heap.length → (step s op).1.heap[b]? = s.heap[b]? := by
-  have h1 : (step s op).2 = .ok ∧ (eval s op).1 = .bindFresh w rv.ty (sees s.heap rv) := by
+  have h1 : (step s op).2 = .ok ∧ ∃ lay, (eval s op).1 = .bindFresh w rv.ty rv.shape lay (sees s.heap rv) := by
     rcases hop with rfl | rfl | rfl <;> simp [step, eval, withVar, hv]
-  refine ⟨h1.1, ⟨s.heap.length, List.range (sees s.heap rv).length, rv.ty⟩, ?_, rfl, rfl, ?_, ?_⟩
-  · simp [step, h1.2, apply, find_bind]
-  · simp only [seen, step, h1.2, apply, find_bind, if_true, hv]
+  obtain ⟨hok, lay, he⟩ := h1
+  refine ⟨hok, ⟨s.heap.length, layoutOr lay (sees s.heap rv).length, rv.ty, rv.shape⟩, ?_, rfl, rfl, rfl, ?_, ?_⟩
+  · simp [step, he, apply, alloc_eq, find_bind]
+  · simp only [seen, step, he, apply, alloc_eq, find_bind, if_true, hv]
     exact sees_fresh ..
   · intro b hb
-    simp [step, h1.2, apply, List.getElem?_append_left hb]
+    simp [step, he, apply, alloc_eq, List.getElem?_append_left hb]
+
+/-- one reshape: it succeeds exactly when the sizes agree, and then `w` shows the records `v` shows, in the same (C) order,
+with the new shape and `v`'s vector type — whether NumPy makes a view or has to copy -/
+theorem reshape_sees (s : State α) (v w : String) (dims : List Nat) (rv : Ref) (hv : find v s.env = some rv)
+    (hd : prod dims = rv.idx.length) :
+    (step s (.reshape v w dims)).2 = .ok ∧
+      ∃ rw, find w (step s (.reshape v w dims)).1.env = some rw ∧ rw.shape = dims ∧ rw.ty = rv.ty ∧
+        rw.idx.length = rv.idx.length ∧ sees (step s (.reshape v w dims)).1.heap rw = sees s.heap rv := by
+  cases hst : strided dims rv.idx with
+  | true =>
+    have he : eval s (.reshape v w dims) = (.bindView w ⟨rv.buf, rv.idx, rv.ty, dims⟩, .ok) := by
+      simp [eval, withVar, hv, hd, hst]
+    refine ⟨by simp [step, he], ⟨rv.buf, rv.idx, rv.ty, dims⟩, by simp [step, he, apply, find_bind], rfl, rfl, rfl, ?_⟩
+    simp [step, he, apply, sees]
+  | false =>
+    have he : eval s (.reshape v w dims) = (.bindFresh w rv.ty dims (List.range rv.idx.length) (sees s.heap rv), .ok) := by
+      simp [eval, withVar, hv, hd, hst]
+    refine ⟨by simp [step, he], ⟨s.heap.length, layoutOr (List.range rv.idx.length) (sees s.heap rv).length, rv.ty, dims⟩,
+      by simp [step, he, apply, alloc_eq, find_bind], rfl, rfl, ?_, ?_⟩
+    · have := (layoutOr_perm (List.range rv.idx.length) (sees s.heap rv).length).1
+      simpa [sees] using this
+    · simp only [step, he, apply, alloc_eq]
+      exact sees_fresh ..
+
+/-- **C19, reshape round trip.**  `w = v.reshape(v.size); u = w.reshape(v.shape)`: both succeed, `w` is flat, `u` has `v`'s
+shape, both have `v`'s vector type and BOTH show exactly the records `v` shows, in the same order — views or copies. -/
+theorem c19h_reshape_roundtrip (s : State α) (v w u : String) (rv : Ref) (hv : find v s.env = some rv)
+    (hsh : prod rv.shape = rv.idx.length) :
+    let s1 := (step s (.reshape v w [rv.idx.length])).1
+    let s2 := (step s1 (.reshape w u rv.shape)).1
+    (step s (.reshape v w [rv.idx.length])).2 = .ok ∧ (step s1 (.reshape w u rv.shape)).2 = .ok ∧
+      seen s1 w = seen s v ∧ seen s2 u = seen s v ∧
+      (∃ rw, find w s1.env = some rw ∧ rw.shape = [rv.idx.length] ∧ rw.ty = rv.ty) ∧
+      ∃ ru, find u s2.env = some ru ∧ ru.shape = rv.shape ∧ ru.ty = rv.ty := by
+  obtain ⟨ok1, rw, hw, hws, hwt, hwl, hwsees⟩ := reshape_sees s v w [rv.idx.length] rv hv (by simp [prod])
+  obtain ⟨ok2, ru, hu, hus, hut, _, husees⟩ :=
+    reshape_sees (step s (.reshape v w [rv.idx.length])).1 w u rv.shape rw hw (by rw [hwl]; exact hsh)
+  refine ⟨ok1, ok2, ?_, ?_, ⟨rw, hw, hws, hwt⟩, ⟨ru, hu, hus, by rw [hut, hwt]⟩⟩
+  · simp only [seen, hw, hv]; exact hwsees
+  · simp only [seen, hu, hv]; rw [husees, hwsees]
 
 /-! ### C19: a write through a name is read back — through the variable and through its aliases -/
-
-theorem assoc_getElem {β : Type} (idx : List Nat) (vals : List β) (hn : idx.Nodup) (hl : idx.length = vals.length)
-    (k : Nat) (hk : k < idx.length) : assoc idx vals idx[k] = some (vals[k]'(hl ▸ hk)) := by
-  induction idx generalizing vals k with
-  | nil => simp at hk
-  | cons i idx ih =>
-    cases vals with
-    | nil => simp at hl
-    | cons x xs =>
-      cases k with
-      | zero => simp [assoc]
-      | succ k =>
-        simp only [List.length_cons, Nat.add_lt_add_iff_right] at hk
-        simp only [List.nodup_cons] at hn
-        have hne : ¬ i = idx[k] := fun h => hn.1 (h ▸ List.getElem_mem hk)
-        simp only [List.getElem_cons_succ, assoc, hne, if_false]
-        exact ih xs hn.2 (by simpa using hl) k hk
 
 /-- `v[name] = vals; v[name]` returns `vals` — provided `v`'s index map repeats no row (true of every view NumPy can make)
 and the records have the addressed field (true of every record of a well-formed buffer) -/
@@ -1059,6 +1503,7 @@ theorem c19h_setName_getName_alias (s : State α) (v w name : String) (idx : Lis
   c19h_alias_getName (c19h_alias_step hal _ (by simp [Op.target]) (by simp [Op.target])) name _
     (c19h_setName_getName s v name vals rv p hv hn hp hl hrec).2
 
+
 /-! ### the invariant of reachable states: index maps repeat no row, records have all the fields -/
 
 /-- every variable points into the heap, shows no buffer row twice, and every record it shows has one scalar per field -/
@@ -1075,24 +1520,76 @@ theorem nodup_pick {l ps : List Nat} (hl : l.Nodup) (hps : ps.Nodup) : (pick l p
     · rw [List.getElem?_eq_none h] at hb; cases hb
   exact hne ((List.getElem?_inj ha hl).mp (hb.trans hb'.symm))
 
-theorem nodup_slicePos {lo hi stp : Option Int} {n : Nat} {ps : List Nat} (h : slicePos lo hi stp n = some ps) :
-    ps.Nodup := by
-  simp only [slicePos] at h
-  split at h
-  · cases h
-  · split at h
-    · cases h; exact List.Nodup.sublist List.filter_sublist List.nodup_range
-    · cases h
-      exact List.pairwise_reverse.mpr (List.Pairwise.imp (fun h => Ne.symm h) (List.Nodup.sublist List.filter_sublist List.nodup_range))
+theorem nodup_distinct (ps : List Nat) : (distinct ps).Nodup := by
+  unfold distinct
+  split
+  · assumption
+  · exact List.nodup_nil
+
+theorem pos_lt {n : String} {fs : List String} {p : Nat} (h : pos n fs = some p) : p < fs.length := by
+  induction fs generalizing p with
+  | nil => simp [pos] at h
+  | cons f fs ih =>
+    simp only [pos] at h
+    split at h
+    · cases h; simp
+    · cases hq : pos n fs with
+      | none => simp [hq] at h
+      | some q => simp [hq] at h; subst h; simp [ih hq]
+
+theorem pos_of_mem {n : String} {fs : List String} (h : n ∈ fs) : ∃ p, pos n fs = some p := by
+  cases hp : pos n fs with
+  | none => exact absurd h (pos_eq_none.mp hp)
+  | some p => exact ⟨p, rfl⟩
+
+theorem mem_coords {ty : VTy} {c : String} (h : c ∈ ty.coords) : c ∈ ty.fields := by
+  simp only [VTy.coords, List.mem_filter] at h
+  simpa using h.2
+
+theorem filterMap_getElem_of_all_some {β γ : Type} (f : β → Option γ) (l : List β) (hall : ∀ x ∈ l, (f x).isSome)
+    (j : Nat) : (l.filterMap f)[j]? = (l[j]?).bind f := by
+  induction l generalizing j with
+  | nil => simp
+  | cons a l ih =>
+    have ha := hall a (List.mem_cons_self ..)
+    obtain ⟨y, hy⟩ := Option.isSome_iff_exists.mp ha
+    rw [List.filterMap_cons_some hy]
+    cases j with
+    | zero => simp [hy]
+    | succ j => simpa using ih (fun x hx => hall x (List.mem_cons_of_mem _ hx)) j
+
+theorem filterMap_length_of_all_some {β γ : Type} (f : β → Option γ) (l : List β) (hall : ∀ x ∈ l, (f x).isSome) :
+    (l.filterMap f).length = l.length := by
+  induction l with
+  | nil => rfl
+  | cons a l ih =>
+    obtain ⟨y, hy⟩ := Option.isSome_iff_exists.mp (hall a (List.mem_cons_self ..))
+    rw [List.filterMap_cons_some hy]
+    simp [ih (fun x hx => hall x (List.mem_cons_of_mem _ hx))]
+
+/-- in a complete record every coordinate name finds its field -/
+theorem coordsOf_all_some (ty : VTy) (rec : Record α) (hrec : rec.length = ty.fields.length) :
+    ∀ c ∈ ty.coords, ((pos c ty.fields).bind (rec[·]?)).isSome := by
+  intro c hc
+  obtain ⟨p, hp⟩ := pos_of_mem (mem_coords hc)
+  have hlt : p < rec.length := by rw [hrec]; exact pos_lt hp
+  simp [hp, hlt]
+
+theorem coordsOf_length (ty : VTy) (rec : Record α) (hrec : rec.length = ty.fields.length) :
+    (coordsOf ty rec).length = ty.coords.length :=
+  filterMap_length_of_all_some _ _ (coordsOf_all_some ty rec hrec)
 
 /-- what `eval` answers in a good state, with the facts the invariant needs -/
 inductive GShape (s : State α) : Eff α → Prop
   | none : GShape s .none
   | view (w v : String) (rv r : Ref) : find v s.env = some rv → r.buf = rv.buf → r.ty = rv.ty → r.idx.Nodup →
       (∀ i ∈ r.idx, i ∈ rv.idx) → GShape s (.bindView w r)
-  | fresh (w : String) (ty : VTy) (recs : List (Record α)) : (∀ rec ∈ recs, rec.length = ty.fields.length) →
-      GShape s (.bindFresh w ty recs)
+  | fresh (w : String) (ty : VTy) (sh lay : List Nat) (recs : List (Record α)) :
+      (∀ rec ∈ recs, rec.length = ty.fields.length) → GShape s (.bindFresh w ty sh lay recs)
   | writes (b : Nat) (idx : List Nat) (ws : List (Nat × List α)) : GShape s (.writes b idx ws)
+  | writesFresh (b : Nat) (idx : List Nat) (ws : List (Nat × List α)) (w : String) (ty : VTy) (sh : List Nat)
+      (recs : List (Record α)) : (∀ rec ∈ recs, rec.length = ty.fields.length) →
+      GShape s (.writesFresh b idx ws w ty sh recs)
   | del (v : String) : GShape s (.del v)
 
 theorem good_sees {s : State α} (hg : Good s) {v : String} {rv : Ref} (hv : find v s.env = some rv) :
@@ -1102,6 +1599,12 @@ theorem good_sees {s : State α} (hg : Good s) {v : String} {rv : Ref} (hv : fin
   obtain ⟨i, hi, rfl⟩ := hrec
   exact (hg v rv hv).2.2 i hi
 
+theorem gshape_inplace (s : State α) (v : String) (r : Ref) (cols : Nat → List α) (res : List (Record α))
+    (hres : ∀ rec ∈ res, rec.length = r.ty.coords.length) : GShape s (inplace v r cols res).1 := by
+  rcases inplace_shape v r cols res with ⟨sh, h⟩ | h <;> rw [h]
+  · exact .writesFresh _ _ _ _ _ _ _ hres
+  · exact .writes ..
+
 theorem eval_gshape (s : State α) (hg : Good s) (op : Op α) : GShape s (eval s op).1 := by
   have hw : ∀ (rt : Ref) tlo thi (rs : Ref) slo shi, GShape s (assignRows s rt tlo thi rs slo shi).1 := by
     intro rt tlo thi rs slo shi
@@ -1109,12 +1612,12 @@ theorem eval_gshape (s : State α) (hg : Good s) (op : Op α) : GShape s (eval s
     · exact .none
     · exact .writes ..
   cases op with
-  | new v ty recs =>
+  | new v ty sh recs =>
     simp only [eval]
     split
     · rename_i h
       simp only [Bool.and_eq_true, List.all_eq_true, beq_iff_eq] at h
-      exact .fresh v ty recs h.2
+      exact .fresh v ty _ _ recs h.1.2
     · exact .none
   | slice v w lo hi stp =>
     simp only [eval, withVar]
@@ -1123,8 +1626,9 @@ theorem eval_gshape (s : State α) (hg : Good s) (op : Op α) : GShape s (eval s
     · rename_i r hr
       split
       · exact .none
-      · rename_i ps hps
-        exact .view w v r _ hr rfl rfl (nodup_pick (hg v r hr).2.1 (nodup_slicePos hps)) (fun i hi => mem_pick hi)
+      · split
+        · exact .none
+        · exact .view w v r _ hr rfl rfl (nodup_pick (hg v r hr).2.1 (nodup_distinct _)) (fun i hi => mem_pick hi)
   | view v w =>
     simp only [eval, withVar]
     split
@@ -1137,8 +1641,10 @@ theorem eval_gshape (s : State α) (hg : Good s) (op : Op α) : GShape s (eval s
     · exact .none
     · rename_i r hr
       split
-      · exact .fresh w _ _ (fun rec hrec => good_sees hg hr rec (mem_pick hrec))
       · exact .none
+      · split
+        · exact .fresh w _ _ _ _ (fun rec hrec => good_sees hg hr rec (mem_pick hrec))
+        · exact .none
   | fancy v w idxs =>
     simp only [eval, withVar]
     split
@@ -1146,27 +1652,57 @@ theorem eval_gshape (s : State α) (hg : Good s) (op : Op α) : GShape s (eval s
     · rename_i r hr
       split
       · exact .none
-      · exact .fresh w _ _ (fun rec hrec => good_sees hg hr rec (mem_pick hrec))
+      · split
+        · exact .none
+        · exact .fresh w _ _ _ _ (fun rec hrec => good_sees hg hr rec (mem_pick hrec))
   | copy v w =>
     simp only [eval, withVar]
     split
     · exact .none
-    · rename_i r hr; exact .fresh w _ _ (good_sees hg hr)
+    · rename_i r hr; exact .fresh w _ _ _ _ (good_sees hg hr)
   | deepcopy v w =>
     simp only [eval, withVar]
     split
     · exact .none
-    · rename_i r hr; exact .fresh w _ _ (good_sees hg hr)
+    · rename_i r hr; exact .fresh w _ _ _ _ (good_sees hg hr)
   | pickle v w =>
     simp only [eval, withVar]
     split
     · exact .none
-    · rename_i r hr; exact .fresh w _ _ (good_sees hg hr)
+    · rename_i r hr; exact .fresh w _ _ _ _ (good_sees hg hr)
+  | reshape v w dims =>
+    simp only [eval, withVar]
+    split
+    · exact .none
+    · rename_i r hr
+      split
+      · exact .none
+      · split
+        · exact .view w v r _ hr rfl rfl (hg v r hr).2.1 (fun i hi => hi)
+        · exact .fresh w _ _ _ _ (good_sees hg hr)
+  | transpose v w =>
+    simp only [eval, withVar]
+    split
+    · exact .none
+    · rename_i r hr
+      exact .view w v r _ hr rfl rfl (nodup_pick (hg v r hr).2.1 (nodup_distinct _)) (fun i hi => mem_pick hi)
+  | sub v w is ell =>
+    simp only [eval, withVar]
+    split
+    · exact .none
+    · rename_i r hr
+      split
+      · exact .none
+      · split
+        · exact .none
+        · exact .view w v r _ hr rfl rfl (nodup_pick (hg v r hr).2.1 (nodup_distinct _)) (fun i hi => mem_pick hi)
   | intIndex v i =>
     simp only [eval, withVar]
     split
     · exact .none
-    · split <;> exact .none
+    · split
+      · exact .none
+      · split <;> exact .none
   | getName v name =>
     simp only [eval, withVar]
     split
@@ -1193,6 +1729,36 @@ theorem eval_gshape (s : State α) (hg : Good s) (op : Op α) : GShape s (eval s
     · split
       · exact .none
       · exact hw ..
+  | imap v f =>
+    simp only [eval, withVar]
+    split
+    · exact .none
+    · rename_i r hr
+      split
+      · apply gshape_inplace
+        intro rec hrec
+        simp only [List.mem_map] at hrec
+        obtain ⟨rec0, h0, rfl⟩ := hrec
+        rw [List.length_map, coordsOf_length _ _ (good_sees hg hr rec0 h0)]
+      · exact .none
+  | izip v w g =>
+    simp only [eval, withVar]
+    split
+    · exact .none
+    · rename_i r hr
+      split
+      · exact .none
+      · rename_i rw hrw
+        split
+        · rename_i hcond
+          apply gshape_inplace
+          intro rec hrec
+          obtain ⟨k, hk, rfl⟩ := List.getElem_of_mem hrec
+          simp only [List.length_zipWith] at hk
+          simp only [List.getElem_zipWith, List.length_zipWith]
+          rw [coordsOf_length _ _ (good_sees hg hr _ (List.getElem_mem _)),
+            coordsOf_length _ _ (good_sees hg hrw _ (List.getElem_mem _)), hcond.2.1, Nat.min_self]
+        · exact .none
   | del v =>
     simp only [eval, withVar]
     split
@@ -1200,12 +1766,22 @@ theorem eval_gshape (s : State α) (hg : Good s) (op : Op α) : GShape s (eval s
     · exact .del v
   | dump => exact .none
 
-theorem rowAt_append_old (h : Heap α) (recs : Buffer α) (b i : Nat) (hb : b < h.length) :
-    rowAt (h ++ [recs]) b i = rowAt h b i := by
-  simp [rowAt, List.getElem?_append_left hb]
-
 /-- the invariant holds initially and is preserved by every operation: it holds in every reachable state -/
 theorem good_step (s : State α) (op : Op α) (hg : Good s) : Good (step s op).1 := by
+  have key : ∀ (h : Heap α) (w : String) (ty : VTy) (sh lay : List Nat) (recs : List (Record α)),
+      (∀ x r, find x s.env = some r → r.buf < h.length ∧ r.idx.Nodup ∧
+        ∀ i ∈ r.idx, (rowAt h r.buf i).length = r.ty.fields.length) →
+      (∀ rec ∈ recs, rec.length = ty.fields.length) → Good (alloc ⟨h, s.env⟩ w ty sh lay recs) := by
+    intro h w ty sh lay recs hgh hrecs x r' hx
+    simp only [alloc_eq, find_bind] at hx
+    simp only [alloc_eq, List.length_append, List.length_singleton]
+    split at hx
+    · cases hx
+      refine ⟨by simp, (layoutOr_perm _ _).2.1, fun i hi => ?_⟩
+      simp only [rowAt, List.getElem?_append_right (Nat.le_refl _), Nat.sub_self, List.getElem?_cons_zero, Option.getD_some]
+      exact hrecs _ (freshBuf_row lay recs i hi)
+    · obtain ⟨h1, h2, h3⟩ := hgh x r' hx
+      exact ⟨Nat.lt_succ_of_lt h1, h2, fun i hi => by rw [rowAt_append_old _ _ _ _ h1]; exact h3 i hi⟩
   have hs := eval_gshape s hg op
   simp only [step]
   generalize (eval s op).1 = eff at hs
@@ -1221,24 +1797,17 @@ theorem good_step (s : State α) (op : Op α) (hg : Good s) : Good (step s op).1
       rw [hb, ht]
       exact (hg v rv hv).2.2 i (hsub i hi)
     · exact hg x r' hx
-  | fresh w ty recs hrecs =>
-    intro x r' hx
-    simp only [apply, find_bind] at hx
-    simp only [apply, List.length_append, List.length_singleton]
-    split at hx
-    · cases hx
-      refine ⟨by simp, List.nodup_range, fun i hi => ?_⟩
-      simp only [List.mem_range] at hi
-      simp only [rowAt, List.getElem?_append_right (Nat.le_refl _), Nat.sub_self, List.getElem?_cons_zero,
-        Option.getD_some, List.getElem?_eq_getElem hi]
-      exact hrecs _ (List.getElem_mem hi)
-    · obtain ⟨h1, h2, h3⟩ := hg x r' hx
-      exact ⟨Nat.lt_succ_of_lt h1, h2, fun i hi => by rw [rowAt_append_old _ _ _ _ h1]; exact h3 i hi⟩
+  | fresh w ty sh lay recs hrecs => exact key s.heap w ty sh lay recs hg hrecs
   | writes b idx ws =>
     intro x r' hx
     obtain ⟨h1, h2, h3⟩ := hg x r' hx
     exact ⟨by simpa [apply, writeCols_length] using h1, h2,
       fun i hi => by simp only [apply]; rw [rowAt_writeCols_length]; exact h3 i hi⟩
+  | writesFresh b idx ws w ty sh recs hrecs =>
+    apply key (writeCols s.heap b idx ws) w ty sh _ recs _ hrecs
+    intro x r' hx
+    obtain ⟨h1, h2, h3⟩ := hg x r' hx
+    exact ⟨by simpa [writeCols_length] using h1, h2, fun i hi => by rw [rowAt_writeCols_length]; exact h3 i hi⟩
   | del v =>
     intro x r' hx
     simp only [apply, find_unbind] at hx
@@ -1266,31 +1835,178 @@ theorem c19h_setName_getName_reachable (hist : List (Op α)) (v name : String) (
         (step (step s (.setName v name vals)).1 (.getName w name)).2 = .vals (pick (vals.map some) idx) := by
   have hg := good_run _ hist (good_empty (α := α))
   obtain ⟨_, h2, h3⟩ := hg v rv hv
-  have hlt : p < rv.ty.fields.length := by
-    have : ∀ (fs : List String) (n : String) (p : Nat), pos n fs = some p → p < fs.length := by
-      intro fs n
-      induction fs with
-      | nil => intro p h; simp [pos] at h
-      | cons f fs ih =>
-        intro p h
-        simp only [pos] at h
-        split at h
-        · cases h; simp
-        · cases hq : pos n fs with
-          | none => simp [hq] at h
-          | some q => simp [hq] at h; subst h; simp [ih q hq]
-    exact this _ _ _ hp
   have hrec : ∀ i ∈ rv.idx, p < (rowAt (run State.empty hist).heap rv.buf i).length := by
-    intro i hi; rw [h3 i hi]; exact hlt
+    intro i hi; rw [h3 i hi]; exact pos_lt hp
   exact ⟨(c19h_setName_getName _ v name vals rv p hv h2 hp hl hrec).2,
     fun w idx hal => c19h_setName_getName_alias _ v w name idx vals rv p hal hv h2 hp hl hrec⟩
+
+/-! ### C19: the element object is built from the record's fields BY NAME -/
+
+/-- **C19, elements by name.**  In every good (in particular: every reachable) state the element `v[i, j, …]` has as many
+coordinates as the array's dimension, and its `j`-th coordinate — the one NAMED `c` in the canonical order of the
+coordinate system — is the field named `c` of the addressed record, at whatever position `p` the dtype has it, and whatever
+extra fields stand before, between or after the coordinates. -/
+theorem c19h_intIndex_by_name (s : State α) (hg : Good s) (v : String) (is : List Int) (ty : VTy) (cs : Record α)
+    (h : (step s (.intIndex v is)).2 = .elem ty cs) :
+    ∃ rv o sh, find v s.env = some rv ∧ ty = rv.ty ∧ tupleOffset rv.shape is = some (o, sh) ∧
+      ∀ rec : Record α, (seen s v)[o]? = some rec →
+        cs.length = rv.ty.dim ∧
+        ∀ (j : Nat) (c : String), rv.ty.coords[j]? = some c →
+          ∃ p : Nat, pos c rv.ty.fields = some p ∧ p < rec.length ∧ cs[j]? = rec[p]? := by
+  obtain ⟨_, rv, o, sh, hv, hty, _, ho, _, hcs⟩ := c19h_type_preserved_intIndex s v is ty cs h
+  refine ⟨rv, o, sh, hv, hty, ho, ?_⟩
+  intro rec hrec
+  have hmem : rec ∈ sees s.heap rv := by
+    simp only [seen, hv] at hrec; exact List.mem_of_getElem? hrec
+  have hlen := good_sees hg hv rec hmem
+  rw [hrec] at hcs
+  simp only [Option.getD_some] at hcs
+  subst hcs
+  refine ⟨coordsOf_length _ _ hlen, ?_⟩
+  intro j c hc
+  obtain ⟨p, hp⟩ := pos_of_mem (mem_coords (List.mem_of_getElem? hc))
+  refine ⟨p, hp, by rw [hlen]; exact pos_lt hp, ?_⟩
+  simp only [coordsOf]
+  rw [filterMap_getElem_of_all_some _ _ (coordsOf_all_some _ rec hlen) j, hc]
+  simp [hp]
+
+/-! ### C19: in-place arithmetic is a write through the reference -/
+
+/-- several column writes at once: each written column holds its values -/
+theorem col_after_writes (h : Heap α) (b : Nat) (idx : List Nat) (hn : idx.Nodup) (ws : List (Nat × List α))
+    (hd : ws.Pairwise (fun a b => a.1 ≠ b.1)) (p : Nat) (vals : List α) (hm : (p, vals) ∈ ws)
+    (hl : idx.length = vals.length) (hrec : ∀ i ∈ idx, p < (rowAt h b i).length) (k : Nat) (hk : k < idx.length) :
+    (rowAt (writeCols h b idx ws) b idx[k])[p]? = vals[k]? := by
+  induction ws generalizing h with
+  | nil => simp at hm
+  | cons w ws ih =>
+    rw [List.pairwise_cons] at hd
+    have hunf : writeCols h b idx (w :: ws) = writeCols (writeCol h b idx w.1 w.2) b idx ws := rfl
+    rw [hunf]
+    rcases List.mem_cons.mp hm with heq | hm'
+    · subst heq
+      rw [rowAt_writeCols_field _ _ _ _ _ _ _ (fun w' hw' h' => hd.1 w' hw' h'.symm), rowAt_writeCol]
+      simp only [if_true]
+      rw [assoc_getElem idx vals hn hl k hk]
+      simp only
+      rw [List.getElem?_set_self (hrec _ (List.getElem_mem hk)), List.getElem?_eq_getElem]
+    · apply ih _ hd.2 hm'
+      intro i hi
+      have := rowAt_writeCols_length h b idx [w] b i
+      simp only [writeCols, List.foldl_cons, List.foldl_nil] at this
+      rw [this]
+      exact hrec i hi
+
+theorem coordPrefix_le (ty : VTy) : coordPrefix ty ≤ ty.fields.length := by
+  unfold coordPrefix
+  exact (List.takeWhile_sublist _).length_le
+
+/-- **`v *= k` row by row** (`imap v f` with `f = (· * k)`): in every good state, for a Cartesian `v`, every coordinate field
+standing before the first extra field of every row `v` shows is replaced by `f` of its old value, in `v`'s OLD buffer (the
+statement then rebinds `v` — `c19h_inplace_rebinds`; with an extra field it raises instead, the writes done). -/
+theorem c19h_inplace_rows (s : State α) (hg : Good s) (v : String) (f : α → α) (rv : Ref) (hv : find v s.env = some rv)
+    (hc : cartesian rv.ty = true) (k : Nat) (hk : k < rv.idx.length) (p : Nat) (hp : p < coordPrefix rv.ty) :
+    (rowAt (step s (.imap v f)).1.heap rv.buf rv.idx[k])[p]? = ((rowAt s.heap rv.buf rv.idx[k])[p]?).map f := by
+  obtain ⟨hlt, hn, hrows⟩ := hg v rv hv
+  have hpf : p < rv.ty.fields.length := Nat.lt_of_lt_of_le hp (coordPrefix_le _)
+  have hall : ∀ rec ∈ sees s.heap rv, ((fun (x : Record α) => x[p]?) rec).isSome := by
+    intro rec hrec
+    have := good_sees hg hv rec hrec
+    simp [this, hpf]
+  have hlen : rv.idx.length = (((sees s.heap rv).filterMap (·[p]?)).map f).length := by
+    rw [List.length_map, filterMap_length_of_all_some _ _ hall]; simp [sees]
+  have hmem : (p, ((sees s.heap rv).filterMap (·[p]?)).map f) ∈
+      inplaceWs rv (fun p => ((sees s.heap rv).filterMap (·[p]?)).map f) := by
+    simp only [inplaceWs, List.mem_map, List.mem_range]
+    exact ⟨p, hp, rfl⟩
+  have hpw : (inplaceWs rv (fun p => ((sees s.heap rv).filterMap (·[p]?)).map f)).Pairwise (fun a b => a.1 ≠ b.1) := by
+    simp only [inplaceWs, List.pairwise_map]
+    exact List.nodup_range
+  have hrec : ∀ i ∈ rv.idx, p < (rowAt s.heap rv.buf i).length := by
+    intro i hi; rw [hrows i hi]; exact hpf
+  have hmain := col_after_writes s.heap rv.buf rv.idx hn _ hpw p _ hmem hlen hrec k hk
+  have hval : (((sees s.heap rv).filterMap (·[p]?)).map f)[k]? = ((rowAt s.heap rv.buf rv.idx[k])[p]?).map f := by
+    rw [List.getElem?_map, filterMap_getElem_of_all_some _ _ hall k]
+    simp [sees, hk]
+  rw [hval] at hmain
+  simp only [step, eval, withVar, hv, hc, if_true]
+  rcases inplace_shape v rv (fun p => ((sees s.heap rv).filterMap (·[p]?)).map f)
+    ((sees s.heap rv).map fun rec => (coordsOf rv.ty rec).map f) with ⟨sh, h⟩ | h
+  · rw [h]
+    simp only [apply, alloc_eq]
+    rw [rowAt_append_old _ _ _ _ (by rw [writeCols_length]; exact hlt)]
+    exact hmain
+  · rw [h]
+    exact hmain
+
+/-- **C19, `v *= k` and the aliases of `v`.**  In every good state, for a Cartesian `v` and `op = imap v f` (`v *= k` is
+`f = (· * k)`): (1) every OTHER variable `x` over `v`'s buffer showing only rows `v` shows — every alias of `v`: its views,
+slices, transposes, reshapes, sub-arrays — keeps its reference and afterwards shows, in every coordinate column standing
+before the first extra field, `f` of what it showed, position by position; (2) every variable over ANOTHER buffer — every
+detached copy — shows exactly what it showed. -/
+theorem c19h_iscale_alias (s : State α) (hg : Good s) (v : String) (f : α → α) (rv : Ref) (hv : find v s.env = some rv)
+    (hc : cartesian rv.ty = true) :
+    let s' := (step s (.imap v f)).1
+    (∀ x rx, x ≠ v → find x s.env = some rx → rx.buf = rv.buf → (∀ i ∈ rx.idx, i ∈ rv.idx) →
+      find x s'.env = some rx ∧
+        ∀ p, p < coordPrefix rv.ty → col p (seen s' x) = (col p (seen s x)).map (Option.map f)) ∧
+    (∀ x rx, x ≠ v → find x s.env = some rx → rx.buf ≠ rv.buf → find x s'.env = some rx ∧ seen s' x = seen s x) := by
+  refine ⟨?_, ?_⟩
+  · intro x rx hxv hx hb hsub
+    have hx' : find x (step s (.imap v f)).1.env = some rx := by
+      rw [find_step _ _ _ (by simp [Op.target]; exact fun h => hxv h.symm)]; exact hx
+    refine ⟨hx', fun p hp => ?_⟩
+    simp only [seen, hx', hx, col, sees, List.map_map, hb]
+    apply List.map_congr_left
+    intro i hi
+    obtain ⟨k, hk, rfl⟩ := List.getElem_of_mem (hsub i hi)
+    simpa using c19h_inplace_rows s hg v f rv hv hc k hk p hp
+  · intro x rx hxv hx hb
+    refine ⟨by rw [find_step _ _ _ (by simp [Op.target]; exact fun h => hxv h.symm)]; exact hx, ?_⟩
+    exact c19h_detached_write s v x rv rx (.imap v f) hv hx (fun h => hb h.symm) (hg x rx hx).1 rfl
+
+/-- … for an alias in the sense of `Aliased` (made by `view slice transpose sub reshape`, kept by every later operation), at
+integer scalars: after `v *= k`, `w` shows the scaled values at the corresponding positions -/
+theorem c19h_iscale_alias_int (s : State Int) (hg : Good s) (v w : String) (k : Int) (idx : List Nat) (rv : Ref)
+    (hvw : v ≠ w) (hal : Aliased s v w idx) (hv : find v s.env = some rv) (hc : cartesian rv.ty = true)
+    (p : Nat) (hp : p < coordPrefix rv.ty) :
+    col p (seen (step s (Op.iscale v k)).1 w) = (col p (seen s w)).map (Option.map (· * k)) := by
+  obtain ⟨rv', rw, h1, h2, h3, _, h5⟩ := hal
+  rw [hv] at h1; cases h1
+  exact ((c19h_iscale_alias s hg v (· * k) rv hv hc).1 w rw (fun h => hvw h.symm) h2 h3
+    (fun i hi => by rw [h5] at hi; exact mem_pick hi)).2 p hp
+
+/-- what the statement `v *= k` leaves in `v`: when it succeeds, `v` is REBOUND to a fresh array of the same flavor and
+coordinate system whose fields are the coordinates in CANONICAL order (extras cannot occur), showing `f` of the coordinates
+`v` showed — no longer an alias of anything -/
+theorem c19h_inplace_rebinds (s : State α) (v : String) (f : α → α) (rv : Ref) (hv : find v s.env = some rv)
+    (hok : (step s (.imap v f)).2 = .ok) :
+    ∃ r', find v (step s (.imap v f)).1.env = some r' ∧ r'.buf = s.heap.length ∧
+      r'.ty = ⟨rv.ty.mom, rv.ty.coords⟩ ∧
+      seen (step s (.imap v f)).1 v = (seen s v).map fun rec => (coordsOf rv.ty rec).map f := by
+  simp only [step, eval, withVar, hv] at hok ⊢
+  by_cases hc : cartesian rv.ty = true
+  · simp only [hc, if_true] at hok ⊢
+    rcases inplace_shape v rv (fun p => ((sees s.heap rv).filterMap (·[p]?)).map f)
+      ((sees s.heap rv).map fun rec => (coordsOf rv.ty rec).map f) with ⟨sh, h⟩ | h
+    · rw [h]
+      refine ⟨⟨s.heap.length, layoutOr (List.range ((sees s.heap rv).map fun rec => (coordsOf rv.ty rec).map f).length)
+        ((sees s.heap rv).map fun rec => (coordsOf rv.ty rec).map f).length, ⟨rv.ty.mom, rv.ty.coords⟩, sh⟩, ?_, rfl, rfl, ?_⟩
+      · simp [apply, alloc_eq, find_bind, writeCols_length]
+      · simp only [seen, apply, alloc_eq, find_bind, if_true, hv]
+        have := sees_fresh (writeCols s.heap rv.buf rv.idx (inplaceWs rv fun p => ((sees s.heap rv).filterMap (·[p]?)).map f))
+          ((sees s.heap rv).map fun rec => (coordsOf rv.ty rec).map f) ⟨rv.ty.mom, rv.ty.coords⟩ sh
+          (List.range ((sees s.heap rv).map fun rec => (coordsOf rv.ty rec).map f).length)
+        exact this
+    · rw [h] at hok; cases hok
+  · simp [hc] at hok
 
 /-! ### examples: a concrete 3-row Momentum3D array -/
 
 section Examples
 
 /-- `a = vector.array({"px": [1, 4, 7], "py": [2, 5, 8], "pz": [3, 6, 9]})` -/
-def exA : State Int := run State.empty [.new "a" ⟨true, ["x", "y", "z"]⟩ [[1, 2, 3], [4, 5, 6], [7, 8, 9]]]
+def exA : State Int := run State.empty [.new "a" ⟨true, ["x", "y", "z"]⟩ [3] [[1, 2, 3], [4, 5, 6], [7, 8, 9]]]
 
 example : WF exA := wf_run _ _ wf_empty
 
@@ -1319,28 +2035,64 @@ example :
       seen s "a" = [[0, 2, 3], [0, 5, 6], [0, 8, 9]] := by decide
 
 /-- `a[-1]` is a `MomentumObject3D` with the record's coordinates; `a[3]` an `IndexError`; `a["rho"]` a `ValueError` -/
-example : (step exA (.intIndex "a" (-1))).2 = .elem ⟨true, ["x", "y", "z"]⟩ [7, 8, 9] ∧
+example : (step exA (.intIndex "a" [-1])).2 = .elem ⟨true, ["x", "y", "z"]⟩ [7, 8, 9] ∧
     (⟨true, ["x", "y", "z"]⟩ : VTy).objTag = "MomentumObject3D" ∧ (⟨true, ["x", "y", "z"]⟩ : VTy).tag = "MomentumNumpy3D" ∧
-    (step exA (.intIndex "a" 3)).2 = .err .IndexError ∧ (step exA (.getName "a" "rho")).2 = .err .ValueError :=
+    (step exA (.intIndex "a" [3])).2 = .err .IndexError ∧ (step exA (.getName "a" "rho")).2 = .err .ValueError :=
   ⟨rfl, by decide, by decide, rfl, rfl⟩
 
 /-- the theorems at work: after `b = a[1:]`, in every later state not rebinding `a` / `b`, `b` shows rows 1, 2 of `a` -/
 example (ops : List (Op Int)) (hops : ∀ op ∈ ops, op.target ≠ some "a" ∧ op.target ≠ some "b") :
     let s' := run (step exA (.slice "a" "b" (some 1) none none)).1 ops
     seen s' "b" = pick (seen s' "a") [1, 2] :=
-  ((c19h_view_alias exA "a" "b" ⟨0, [0, 1, 2], ⟨true, ["x", "y", "z"]⟩⟩ (by decide) rfl ops hops).2
-    (some 1) none none [1, 2] (by decide)).1
+  ((c19h_view_alias exA "a" "b" ⟨0, [0, 1, 2], ⟨true, ["x", "y", "z"]⟩, [3]⟩ (by decide) (by decide) ops hops).2
+    (some 1) none none [2] [1, 2] (by decide)).1
 
 /-- the read-back law applies to `exA`: no repeated rows, every record has the field -/
 example : (step (step exA (.setName "a" "py" [20, 50, 80])).1 (.getName "a" "y")).2 = .vals [some 20, some 50, some 80] :=
-  (c19h_setName_getName exA "a" "py" [20, 50, 80] ⟨0, [0, 1, 2], ⟨true, ["x", "y", "z"]⟩⟩ 1 rfl (by decide) (by decide) rfl
-    (by decide)).2
+  (c19h_setName_getName exA "a" "py" [20, 50, 80] ⟨0, [0, 1, 2], ⟨true, ["x", "y", "z"]⟩, [3]⟩ 1 (by decide) (by decide)
+    (by decide) rfl (by decide)).2
+
+/-! #### shapes, field orders, extra fields, in-place arithmetic -/
+
+/-- `n = vector.array([(2., 9., 1., 3.), …], dtype=[("y", …), ("w", …), ("px", …), ("z", …)]).reshape(2, 3)`: a
+`MomentumNumpy3D` whose dtype lists `y` first, an extra field `w`, then `x`, `z` -/
+def exN : State Int := run State.empty [.new "n" ⟨true, ["y", "w", "x", "z"]⟩ [2, 3]
+  [[2, 90, 1, 3], [5, 91, 4, 6], [8, 92, 7, 9], [11, 93, 10, 12], [14, 94, 13, 15], [17, 95, 16, 18]]]
+
+/-- the class comes from the coordinate names only; `n[1, 2]` is a `MomentumObject3D(px=16, py=17, pz=18)`: fields BY NAME, the
+extra dropped; `n[1]` is an array of shape `(3,)`; `n[1, 2, ...]` a 0-d ARRAY; `n[2, 0]` an `IndexError` -/
+example : (⟨true, ["y", "w", "x", "z"]⟩ : VTy).tag = "MomentumNumpy3D" ∧
+    (step exN (.intIndex "n" [1, 2])).2 = .elem ⟨true, ["y", "w", "x", "z"]⟩ [16, 17, 18] ∧
+    (step exN (.intIndex "n" [1])).2 = .arr ⟨true, ["y", "w", "x", "z"]⟩ [3] ∧
+    (step exN (.sub "n" "z" [1, 2] true)).2 = .ok ∧
+    (find "z" (step exN (.sub "n" "z" [1, 2] true)).1.env).map (·.shape) = some [] ∧
+    (step exN (.intIndex "n" [2, 0])).2 = .err .IndexError :=
+  ⟨by decide, rfl, rfl, rfl, by decide, rfl⟩
+
+/-- `t = n.T; f = t.reshape(6)` has to COPY (the transposed rows are not strided as a flat array) while `g = n.reshape(6)` is
+a view: a write through `n` is seen through `t` and `g`, not through `f` -/
+example :
+    let s := run exN [.transpose "n" "t", .reshape "t" "f" [6], .reshape "n" "g" [6], .setName "n" "px" [0]]
+    col 2 (seen s "t") = [some 0, some 0, some 0, some 0, some 0, some 0] ∧
+    col 2 (seen s "g") = [some 0, some 0, some 0, some 0, some 0, some 0] ∧
+    col 2 (seen s "f") = [some 1, some 10, some 4, some 13, some 7, some 16] ∧
+    (find "t" s.env).map (·.buf) = some 0 ∧ (find "g" s.env).map (·.buf) = some 0 ∧ (find "f" s.env).map (·.buf) = some 1 := by
+  decide
+
+/-- `c = vector.array(…x, y…); d = c[1:]; c *= 2`: the old buffer is scaled — seen through `d` — and `c` is REBOUND to a fresh
+array: `c` lives in a new buffer, no longer sharing memory with `d` -/
+example :
+    let s := run State.empty [.new "c" ⟨false, ["y", "x"]⟩ [3] [[2, 1], [4, 3], [6, 5]], .slice "c" "d" (some 1) none none,
+      Op.iscale "c" 2]
+    seen s "d" = [[8, 6], [12, 10]] ∧ seen s "c" = [[2, 4], [6, 8], [10, 12]] ∧
+      (find "c" s.env).map (·.ty.fields) = some ["x", "y"] ∧
+      (find "d" s.env).map (·.buf) = some 0 ∧ (find "c" s.env).map (·.buf) = some 1 := by decide
 
 /-- **Discrepancy with C16 (failure atomicity), reproduced on the real library.**  `a[:] = b[:]` where `b` has a field `a`
 lacks (`theta` vs `z`) raises `ValueError` — after `x` and `y` of `a` have been overwritten. -/
 theorem c19h_setElems_partial :
-    let s : State Int := run State.empty [.new "a" ⟨false, ["x", "y", "z"]⟩ [[1, 2, 3], [4, 5, 6]],
-      .new "b" ⟨false, ["x", "y", "theta"]⟩ [[7, 8, 9], [10, 11, 12]]]
+    let s : State Int := run State.empty [.new "a" ⟨false, ["x", "y", "z"]⟩ [2] [[1, 2, 3], [4, 5, 6]],
+      .new "b" ⟨false, ["x", "y", "theta"]⟩ [2] [[7, 8, 9], [10, 11, 12]]]
     (step s (.setElems "a" none none "b" none none)).2 = .err .ValueError ∧
       seen s "a" = [[1, 2, 3], [4, 5, 6]] ∧
       seen (step s (.setElems "a" none none "b" none none)).1 "a" = [[7, 8, 3], [10, 11, 6]] :=
@@ -1348,12 +2100,19 @@ theorem c19h_setElems_partial :
 
 /-- … and an assignment from a LOWER-dimensional array silently succeeds, overwriting only the fields the source has -/
 theorem c19h_setElems_lower_dim :
-    let s : State Int := run State.empty [.new "a" ⟨false, ["x", "y", "z"]⟩ [[1, 2, 3], [4, 5, 6]],
-      .new "b" ⟨false, ["x", "y"]⟩ [[7, 8], [10, 11]]]
+    let s : State Int := run State.empty [.new "a" ⟨false, ["x", "y", "z"]⟩ [2] [[1, 2, 3], [4, 5, 6]],
+      .new "b" ⟨false, ["x", "y"]⟩ [2] [[7, 8], [10, 11]]]
     (step s (.setElems "a" none none "b" none none)).2 = .ok ∧
       seen (step s (.setElems "a" none none "b" none none)).1 "a" = [[7, 8, 3], [10, 11, 6]] :=
   ⟨rfl, by decide⟩
 
-end Examples
+/-- **Discrepancy with C16 (failure atomicity), reproduced on the real library.**  `a *= 2` on an array whose dtype has an extra
+field `w` between `x` and `y` raises `ValueError` (`result` has no field `w`) — after `x` has been scaled; `y` is not. -/
+theorem c19h_inplace_partial :
+    let s : State Int := run State.empty [.new "a" ⟨false, ["x", "w", "y"]⟩ [2] [[1, 50, 2], [3, 51, 4]]]
+    (step s (Op.iscale "a" 2)).2 = .err .ValueError ∧
+      seen (step s (Op.iscale "a" 2)).1 "a" = [[2, 50, 2], [6, 51, 4]] :=
+  ⟨rfl, by decide⟩
 
+end Examples
 end VH
